@@ -12,1132 +12,2740 @@ Definition show_fres (r : fres) : string :=
   end.
 Definition check (rs : list rune) : string := digest (show_fres (format_res rs)).
 Definition full (rs : list rune) : string := show_fres (format_res rs).
-Eval vm_compute in ("<<<M1985>>>" ++ check (runes_of_ascii "options {
-    BodyLength = string;
-    trueish = ""it's""
-    i8i8 = ""// no comment""
-    // trailing space 
-    roots = """ ++ [28040; 24687]%N ++ runes_of_ascii """;// a // b
-    falsey = '\x00';
-}
-
-packet metadata {
-    packetx {
-        repeat rootA x_y_z `tab	here`,
-        repeat pack,
-        Logon {
-            u16 msg_type,
-            u8 BodyLength `
-            `,
-            zchar[3] int,
-        },
-        a1 T,
-    },// `tick` ""quote"" 'q'
-    repeat f32 o `crlf
-    line`,
-    i32 rootA,
-    int32 matchKey,
-    @leftPad()
-    x_y_z {
-        match body as u8x {
-            [""{,}""] : u8x,
-            3 : u8x,
-            4294967296 : As,
-            [""CRC32""] : A,
-            255 : body,
-            // c
-            42 : x_y_z,
-        },
-    },
-    repeat body float,
-}// trailing space 
-
-packet trueish {
-    stringy @lengthOf(float) `{ , }`,
-    repeat i64_,
-    uint16 string_ @calculatedFrom(""\" ++ [233]%N ++ runes_of_ascii """) `
-    `,// a // b
-    @tag(0123456789)
-    char[4294967296] calculatedFrom @lengthOf(int) `line1
-    line2`,// packet A { u8 x, }
-    match rootA as asx {
-        ""\" ++ [233]%N ++ runes_of_ascii """ : f32a,
-        ""\n"" : rootA,
-        [""a\\"", 0123456789] : crc,
-        1 : msg_type,
-        ""a	b"" : stringy,
-    },
-    repeat len {
-        string_ {
-            i16 _x,
-            _x {
-                repeat uint8x a1,
-                char[42] zchar `say ""hi""`,
-                zchar[7] uint8x,
-            },
-            repeat i8i8 body,
-        },
-        uint8 T @lengthOf(repeatCount),
-    },
-}
-
-root packet asx {
-    @calculatedFrom(""x y"")
-    repeat pack,
-    repeat string_ {
-        u8 metadata,
-    },
-    @calculatedFrom(""abc"")
-    roots @lengthOf(T) ``,
-    match asx as uint8x {
-        3 : u8x,
-    },// trailing space 
-    u8x @calculatedFrom(""{,}""),
-}
-
-packet o {
-    string Logon,
-    charz metadata,
-    match len as float {
-        255 : uint8x,
-        ""CRC32"" : As,
-        1 : body,
-        7 : options1,
-        [""" ++ [128512]%N ++ runes_of_ascii """, ""it's""] : repeatCount,
-    },
-    @leftPad()
-    @calculatedFrom(""x y"")
-    @leftPad(' ')
-    repeat lengthOf,
-    zchar[42] Logon @calculatedFrom(""""),
-}
-//x")).
-Eval vm_compute in ("<<<M1708>>>" ++ check (runes_of_ascii "  options
-
-{
-StringPrefixLenType	=  u16
-    ;
-    ArrayPrefixLenType
-	=
-    u16
-
-    ;
-
-}
-packet 
-SampleBinary
-
-    { uint16
-
-MsgType
-`" ++ [28040; 24687; 31867; 22411]%N ++ runes_of_ascii "`,
-
-    u16 BodyLenght @lengthOf(Body
-    ) 
-`" ++ [28040; 24687; 20307; 38271; 24230]%N ++ runes_of_ascii "`,
-    match
-
-MsgType as Body {
-	1:
-
-Logon
-
-,
-    2: Logout, 3
-:
-Heartbeat 
-,4
-
-:
-	RiskControlRequest ,5 :
-RiskControlResponse ,}
-
-    , @calculatedFrom( ""CRC32""
-)  u32 Ckecksum
-	`" ++ [26657; 39564; 21644]%N ++ runes_of_ascii "`
-,  }
-
-packet
-    Logon
-	{
-	@leftPad
-    ( '0'
-)
-	char[	10
-]
-    UserName `" ++ [29992; 25143; 21517]%N ++ runes_of_ascii "` ,
-	string Password
-`" ++ [23494; 30721]%N ++ runes_of_ascii "`
-
-    , uint64  ClientId
-
-`" ++ [23458; 25143; 31471]%N ++ runes_of_ascii "ID` ,	u16
-    HeartbeatInterval `" ++ [24515; 36339; 38388; 38548]%N ++ runes_of_ascii "`
-    , }  packet 
-Logout
-
-{
-	@rightPad ( '0' )
-char[10 ]
-
-UserName
-    `" ++ [29992; 25143; 21517]%N ++ runes_of_ascii "` 
-,uint64  ClientId`" ++ [23458; 25143; 31471]%N ++ runes_of_ascii "ID` 
-,  }
-	packet
-
-Heartbeat
-{}
-
-packet
-    RiskControlRequest 
-{
-
-string
-
-UniqueOrderId
-	`" ++ [21807; 19968; 35746; 21333; 21495]%N ++ runes_of_ascii "` 
-,	char[16
-
-]  ClOrdID`" ++ [23458; 25143; 35746; 21333; 21495]%N ++ runes_of_ascii "` , char[
-3
-]
-	MarketID
-	`" ++ [24066; 22330]%N ++ runes_of_ascii "id` ,char[ 
-12
-
-    ]
-
-SecurityID
-
-`" ++ [35777; 21048; 20195; 30721]%N ++ runes_of_ascii "`
-    , 
-char	Side
-	`" ++ [20080; 21334; 26041; 21521]%N ++ runes_of_ascii "`
-,
-
-    char
-    OrderType `" ++ [35746; 21333; 31867; 22411]%N ++ runes_of_ascii "`, 
-u64
-Price  `" ++ [20215; 26684]%N ++ runes_of_ascii "`  ,u32
-Qty `" ++ [25968; 37327]%N ++ runes_of_ascii "`, repeat
-
-    string
-
-ExtraInfo 
-`" ++ [38468; 21152; 20449; 24687]%N ++ runes_of_ascii "` , repeat
-SubOrder
-{ char[ 
-16
-    ]
-ClOrdID`" ++ [23376; 35746; 21333; 21495]%N ++ runes_of_ascii "`
-,
-	u64
-    Price `" ++ [23376; 35746; 21333; 20215; 26684]%N ++ runes_of_ascii "` ,u32 
-Qty `" ++ [23376; 35746; 21333; 25968; 37327]%N ++ runes_of_ascii "`
-,
-
-}	,	}
-	packet
-	RiskControlResponse  {
-
-    string
-UniqueOrderId`" ++ [21807; 19968; 35746; 21333; 21495]%N ++ runes_of_ascii "`,i32
-    Status
-	`" ++ [29366; 24577]%N ++ runes_of_ascii "`,
-    string
-    Msg
-	`" ++ [32467; 26524; 20449; 24687]%N ++ runes_of_ascii "`
-
-    , 
-repeat 
-Detail,
-} packet Detail	{  string RuleName`" ++ [35268; 21017; 21517; 31216]%N ++ runes_of_ascii "`
-    ,  u16 Code `" ++ [21407; 22240; 20195; 30721]%N ++ runes_of_ascii "`
-,}
-")).
-Eval vm_compute in ("<<<M1725>>>" ++ check (runes_of_ascii "options {
-    u = ""a\""b"";
-    Z9_ = ""// no comment"";
-    tag = 7
-}
-
-root packet As {
-}
-
-packet Header {
-    @lengthOf(Foo)
-    rootA @calculatedFrom(""\" ++ [233]%N ++ runes_of_ascii """),
-    @calculatedFrom(""CRC32"")
-    float64 crc,
-    repeat char[007] Logon,//
-    @tag(7)
-    //
-    // c
-    @calculatedFrom(""{,}"")
-    @lengthOf(stringy)
-    match A as f32a {
-        // `tick` ""quote"" 'q'
-        [
-            ""a\\"", 1, ""CRC32"", 007, ""a	b"",
-            ""\" ++ [233]%N ++ runes_of_ascii """
-        ] : trueish,
-        4294967296 : u8x,
-        //
-    },
-    @tag(255)
-    @lengthOf(u8x)
-    @calculatedFrom(""x y"")
-    pack {
-        uint16 uint8x,
-    },
-    match leftPad as asx {
-        ""{,}"" : T,
-        007 : _x,
-        1 : options1,
-        [42, 007] : calculatedFrom,
-        """ ++ [233]%N ++ runes_of_ascii "t" ++ [233]%N ++ runes_of_ascii """ : lengthOf,
-    },
-    u8x {
-        int64 charz `line1
-                line2`,
-    },
-    repeat Header BodyLength `
-        `,
-    @rightPad('\x00')
-    @lengthOf(tag)
-    match o as uint8x {
-        [255] : _x,
-        1 : matchKey,
-        // " ++ [128512]%N ++ runes_of_ascii " emoji
-        //x
-        65535 : tag,
-        0123456789 : zchar,
-        ""a\\"" : metadata,
-    },
-}")).
-Eval vm_compute in ("<<<M1425>>>" ++ check (runes_of_ascii "options { LittleEndian // c2a
-  // c2b
-= // c3
-false ; StringPrefixLenType = u32 ; // c9
-ArrayPrefixLenType = // c11
-u16
-    // c12
+Eval vm_compute in ("<<<M3582>>>" ++ check (runes_of_ascii "  options {LittleEndian=
+true
 ;
-    // c13
-} // c14
-packet // c15a
-  // c15b
-Party {
-    // c17
-@leftPad
-    // c18
-(
-    // c19
-'0' // c20
-)
-    // c21
-char[
-    // c22
-12
-    // c23
-] // c24
-Ref // c25a
-  // c25b
-, // c26
-repeat // c27
-char[ // c28
-6 ] // c30a
-  // c30b
-x
-    // c31
-,
-    // c32
-} packet // c34a
-  // c34b
-Logon // c35
-{
-    // c36
-uint32
-    // c37
-clOrdID // c38a
-  // c38b
-, // c39
-Party , } // c42a
-  // c42b
-root // c43a
-  // c43b
-packet // c44a
-  // c44b
-Ack
-    // c45
-{ // c46
-zchar[ 2 ] // c49
-f1 , u32 // c52
-seqNo , // c54a
-  // c54b
-u32 Side2 // c56a
-  // c56b
-@lengthOf( // c57
-Body // c58a
-  // c58b
-) ,
-    // c60
-match seqNo // c62
-as
-    // c63
-Body // c64
-{
-    // c65
-43 // c66
-:
-    // c67
-Logon , // c69
-93
-    // c70
-: // c71
-Party
-    // c72
-,
-    // c73
-}
-    // c74
-, // c75
-} // c76a
-  // c76b
-")).
-Eval vm_compute in ("<<<M164>>>" ++ check (runes_of_ascii "packet
+	ArrayPrefixLenType
+
+    =
+u8 
+; FixedStringPadChar =	'0'
+
+;  JavaPackage =
+    ""com.example.msg""
+;GoPackage =
+
+    ""msg""
+;GoModule
+    =
+	""example.com/msg""  ;	}
+    MetaData
+
+    Meta {	u32
+
+    SeqNum
+
+    `sequence number`,	char[
+
+8 ]Symbol  `symbol`,
+zchar[ 
+5
+	]
+ZSym`z symbol` ,
+	string Note ,Symbol
+AltSymbol`alias of symbol`
+	,f64 
+Price
+, 
+}packet
+
+    Inner
+{ 
+u8
+
+    a ,
+    i16	b
+,string	c	,
+	} packet
+	Inner2 
+{u8
+    a2
+	,
+
+    char[
+
+    3
+] c2
+, }
+packet
+
     Logon
 {
-    repeat	char
-MetaDataX `say ""hi""`,
-@lengthOf(
-packetx) char[] repeatCount// `tick` ""quote"" 'q'
-`doc` , @leftPad (
-    '0' )@tag(
-7 ) Header@calculatedFrom(
-    """" // " ++ [128512]%N ++ runes_of_ascii " emoji
-)	,
-@lengthOf(
-    /// triple
-    MetaDataX
-) match // trailing space 
-x
-//
-// trailing space 
-as Header
-// trailing space 
-//	t
-{ ""x y"" : u8x // trailing space 
+    u8 x 
 ,
-""" ++ [128512]%N ++ runes_of_ascii """
-: /// triple
-charz , """ ++ [233]%N ++ runes_of_ascii "t" ++ [233]%N ++ runes_of_ascii """
-:// packet A { u8 x, }
-_x,[ 3 , // " ++ [27880; 37322]%N ++ runes_of_ascii "
-00
-    ] :  uint8x , ""it's"" //	t
-:// `tick` ""quote"" 'q'
-rootA[
-    00
-    ,  65535//x
-] :
-    zchar }
-    ,@calculatedFrom( ""// no comment"" )int32 i64_,
-repeat// " ++ [128512]%N ++ runes_of_ascii " emoji
-body {zchar[
-    10  ]
-BodyLength `line1
-line2` , lengthOf Logon
-, // @lengthOf(
-repeat
-    float64	i8i8 ,char[0123456789]leftPad // `tick` ""quote"" 'q'
-`
-` ,	}
-    ,  repeat char[ 255
-    //
-    ] a1`" ++ [28040; 24687; 31867; 22411]%N ++ runes_of_ascii "`, } 	 ")).
-Eval vm_compute in ("<<<M145>>>" ++ check (runes_of_ascii "
-packet
-// `tick` ""quote"" 'q'
-// `tick` ""quote"" 'q'
-rootA{ @tag( 3  ) zchar[
-00 ] // trailing space 
-x_y_z
-    `" ++ [28040; 24687; 31867; 22411]%N ++ runes_of_ascii "`  , _x ,
-    // a // b
-    float64
-    A
-@lengthOf( //
-u8x ) , u8 rootA`line1
-line2`	, zchar[ 7
-    ] // c
-stringy,
-match Header as f32a { ""\" ++ [233]%N ++ runes_of_ascii """:	o ,[
-    // `tick` ""quote"" 'q'
-    4294967296
-, 7 ,// c
-4294967296
-, ""packet"" , ""a	b"" , ""CRC32"" ,	7 ,
-""a	b""// trailing space 
-]	: // packet A { u8 x, }
-repeatCount, ""a\""b"" :
-    Header  [""a\""b"" ] :
-crc  ,	[  007
-,
-007, ""abc"" ] :
-    metadata, 4294967296 : chars ,
-} // " ++ [128512]%N ++ runes_of_ascii " emoji
-, @tag( 1 ) i8 matchKey	`a\` ,
-// @lengthOf(
-// " ++ [128512]%N ++ runes_of_ascii " emoji
-@lengthOf(
-    body ) tag ,@lengthOf( matchKey
-)
-    @lengthOf(  o	)  @lengthOf( pack
-    ) repeat u {
-calculatedFrom @lengthOf( falsey  ), } , }
-")).
-Eval vm_compute in ("<<<M284>>>" ++ check (runes_of_ascii "packet Pad
-{char[ 007] string_ ,// @lengthOf(
-@lengthOf( zchar
-)string rootA
-, @lengthOf(T ) char trueish @lengthOf(
-    zchar
-) `line1
-line2`, repeat f64 calculatedFrom , @calculatedFrom(""it's"" ) leftPad
-    `it's`
-    , stringy{
-int8 Packet @lengthOf( metadata
-)
-`tab	here`
-    ,
-A ,
-    match charz as uint8x{ 3
-:  MetaDataX ,
-    1
-    :
-    //	t
-    charz ""a	b""
-    :
-    //x
-    msg_type	,
-    //x
-    [
-0 , 10 , ""// no comment"" ,""\" ++ [233]%N ++ runes_of_ascii """
-] : A , // @lengthOf(
-""\n"" :
-trueish , },	},
-    @calculatedFrom( ""a\\"")
-char[ 7 ] u @calculatedFrom( ""a\\""),
-    //	t
-    @tag(	7) o
-{	As `it's`	,} ,} packet u	{
-}packet stringy {
-@tag(0123456789 )string pack @lengthOf( Pad), }")).
-Eval vm_compute in ("<<<M259>>>" ++ check (runes_of_ascii "MetaData Header
+
+    string
+user,  repeat
+u16 
+codes, } packet Logout
+{ u16
+reason
+
+    , }	packet
+    Empty
 {
-} root	packet chars
-    { char[	00
+    } root packet
+
+    Msg
+
+    {	u8  su8 
+,uint8 
+luint8
+    ,
+
+u16
+    su16,uint16
+
+    luint16
+,  u32
+    su32
+
+,	uint32 
+luint32
+,  u64 su64 ,
+uint64 luint64
+, i8
+si8
+	, int8 lint8
+	,
+
+    i16 
+si16 ,
+int16
+	lint16
+	,
+    i32
+    si32
+
+    ,int32 
+lint32
+    ,
+
+i64
+si64, int64
+lint64 
+,
+f32 sf32
+	,float32
+lfloat32
+    ,f64
+sf64 ,	float64
+lfloat64 
+, char[6	] fsplain
+
+    ,
+	@leftPad(	'0'
+    )
+	char[
+
+4] fs0
+,
+
+@rightPad (  '0' )  char[	5] fs1, @leftPad ( ' '
+) char[ 6
+	]
+fs2
+,
+    @rightPad(
+
+    ' ')  char[	7	]fs3	, @leftPad 
+( '\x00' ) char[
+8
+
 ]
-MetaDataX `u8 x,` ,repeat Foo stringy // " ++ [128512]%N ++ runes_of_ascii " emoji
-, @lengthOf( u8x ) char[] Foo , match  Header as
-leftPad { [
-""abc"" ,
-    255
-, """ ++ [128512]%N ++ runes_of_ascii """ , """" ]	:charz
-,007
-    // packet A { u8 x, }
-    : uint8x , 0 :asx , """"
-    // " ++ [27880; 37322]%N ++ runes_of_ascii "
-    : MetaDataX , } ,	char[]
-uint8x , @tag(  1 )
-    i8i8{ x Packet `doc`	, zchar[ 4294967296  ] metadata @calculatedFrom(
-    ""a\\"" ) `" ++ [233]%N ++ runes_of_ascii "`, zchar[  10]//
-crc
-    @lengthOf( Foo
-    // @lengthOf(
-    ) `crlf
-line` ,
-} ,}	MetaData
-msg_type {
-    char[] calculatedFrom `line1
-line2`,
-} // `tick` ""quote"" 'q'")).
-Eval vm_compute in ("<<<M1515>>>" ++ check (runes_of_ascii "packet leftPad {
-    BodyLength {
-        // a // b
-        rootA {
-            char[00] leftPad,
-            // trailing space 
-            tag @calculatedFrom(""abc""),
-            char[42] len,
-            string MetaDataX,
-        },
-        match Z9_ as A {
-            ""1"" : x,
-            ""packet"" : lengthOf,
-        },
-        i64 chars @lengthOf(msg_type) `
-                `,
+	fs4
+, @rightPad 
+(
+
+'\x00')
+
+    char[9	] fs5
+, @leftPad ( 
+)
+
+    char[
+    10
+	] fs6,@rightPad ( )
+char[
+
+11
+
+    ]fs7 ,
+
+zchar[
+7 ] fz ,
+    @leftPad 
+(
+	'0') zchar[
+
+    3 ]  fzl0,	string  s1`doc`
+	,
+char[] s2 
+,
+
+Inner , Sub
+	{
+
+    u8 
+q
+,
+string
+    w
+, 
+Deep 
+{ u16
+
+z
+,
+	repeat 
+i32
+
+    zs
+    ,	}
+, }
+, repeat
+	u8 ru8,
+repeat 
+u16
+ru16 ,	repeat
+
+    u32 ru32
+, repeat
+u64	ru64
+    ,
+    repeat
+	i8
+ri8 , 
+repeat  i16
+	ri16	, repeat
+
+    i32
+	ri32
+, 
+repeat
+i64
+ri64 ,repeat
+    f32
+rf32
+,
+
+    repeat
+
+    f64 rf64
+
+    ,
+	repeat
+string rstr,
+repeat  char[]
+    rstr2, repeat	char[  3 
+]
+rfs	,  repeat
+
+zchar[ 3] 
+rfz
+
+, repeat	Inner2
+
+    ,
+    repeat
+	Grp
+{	u8
+
+k,
+char[
+    2
+    ] 
+v,
+
+}
+	, SeqNum,
+
+    SeqNum seq2,
+repeat SeqNum
+
+    seqs	,
+Symbol  ,
+AltSymbol
+    alt
+,ZSym
+	, 
+Note
+
+    ,
+repeat
+Symbol
+syms
+,Price px 
+,
+    u16	MsgType 
+,
+u32
+	BodyLen @lengthOf(
+    Body
+
+)  ,
+	match
+	MsgType 
+as
+    Body
+	{	1
+    :Logon 
+,[
+    2,3
+
+] :
+
+    Logout
+    ,
+7  :
+
+Logon, 
+9
+	:
+Empty
+    ,} 
+, u32
+Checksum @calculatedFrom(
+    ""CRC32"" ) , 
+}
+")).
+Eval vm_compute in ("<<<M3721>>>" ++ check (runes_of_ascii "options {
+}
+
+root packet msg_type {
+    match u8x as zchar {
+        [0, 00] : metadata,
+        10 : Z9_,
+        ""a\""b"" : chars,
+        0 : uint8x,
+        // " ++ [27880; 37322]%N ++ runes_of_ascii "
+        007 : chars,
     },
-    zchar[3] u128 @lengthOf(packetx),
+    A @lengthOf(Pad),
+    @leftPad(' ')
+    @leftPad(' ')
+    @tag(00)
+    int8 Pad @calculatedFrom(""x y""),
+}
+
+root packet msg_type {
+    i64 uint8x,
     @leftPad('\x00')
-    char[] chars @calculatedFrom(""`tick`""),
+    Z9_ @calculatedFrom(""""),
+    Pad `two words`,
+}
+
+packet f32a {
+    zchar[4294967296] u,
+    @leftPad('0')
+    repeat uint64 zchar `crlf
+        line`,
+    // 50% %s
+    int16 msg_type `100% of %d`,
+    @lengthOf(crc)
+    calculatedFrom {
+        // packet A { u8 x, }
+        // " ++ [27880; 37322]%N ++ runes_of_ascii "
+        Header {
+            matchKey @lengthOf(falsey),
+            match int as BodyLength {
+                // 50% %s
+                7 : packetx,
+                """ ++ [28040; 24687]%N ++ runes_of_ascii """ : msg_type,
+            },
+            x @calculatedFrom(""a\""b""),
+            match body as len {
+                ""`tick`"" : body,
+                """ ++ [128512]%N ++ runes_of_ascii """ : roots,
+                // trailing space 
+                //
+                4294967296 : packetx,
+                /// triple
+                // @lengthOf(
+                ""a\""b"" : matchKey,
+            },
+        },
+    },
+    repeat i8i8 body,
+    repeat As crc,
+    match uint8x as tag {
+        [""a\\"", 7, ""x y""] : float,
+        ""a	b"" : A,
+        ""CRC32"" : rootA,
+        [
+            ""a\""b"", ""CRC32"", 3, ""it's"", 42,
+            65535, """"
+        ] : options1,
+        [1] : Packet,
+    },
+    match string_ as u8x {
+        0123456789 : zchar,
+        //x
+    },
+    zchar @calculatedFrom("""") `line1
+        line2`,
+    repeat T {
+        metadata @calculatedFrom(""x y""),
+        match a1 as metadata {
+            4294967296 : options1,
+            ""x y"" : i8i8,
+        },
+        repeat leftPad {
+            char[42] float,// a // b
+        },
+    },
+}
+
+options {
+    i64_ = true
 }")).
-Eval vm_compute in ("<<<M129>>>" ++ check (runes_of_ascii "root packet options1
-{ @lengthOf(	msg_type ) Logon @lengthOf( packetx )`
-` , As  {
-repeat	T
-`
-`
-    ,float64 Foo	`crlf
+Eval vm_compute in ("<<<M414>>>" ++ check (runes_of_ascii "root packet Foo { @leftPad (' ' )match BodyLength as
+Foo{
+// " ++ [128512]%N ++ runes_of_ascii " emoji
+//x
+255 : uint8x
+    // a // b
+    ,[""" ++ [28040; 24687]%N ++ runes_of_ascii """ , 42 ,
+    ""a\""b"" ]:
+pack
+    ""\" ++ [233]%N ++ runes_of_ascii """:/// triple
+calculatedFrom , // 50% %s
+} , @leftPad ( ' '
+    )
+repeat string chars `crlf
 line`
+    , repeat zchar[007]
+    o`tab	here`
+    //
+    ,	@leftPad ( ' '
+    ) @lengthOf(
+    packetx ) match	T as  u{  ""`tick`"" : trueish
+, [""abc""
+    // trailing space 
+    ]:
+Header
+    ,[  ""\" ++ [233]%N ++ runes_of_ascii """ , 3 , ""1"", """" ] : lengthOf ,
+    ""\n""	:
+    // " ++ [128512]%N ++ runes_of_ascii " emoji
+    charz ""packet""	:pack
+// trailing space 
+// packet A { u8 x, }
+,	""a\""b"": zchar
+    }
+    , } packet float { @calculatedFrom( ""\n"" ) match chars as	stringy
+{ [
+""`tick`"",	""" ++ [128512]%N ++ runes_of_ascii """ , ""\n"" , ""\" ++ [233]%N ++ runes_of_ascii """ ,
+""{,}""]
+    : zchar""1"" : a1 [
+65535] :
+A
+// @lengthOf(
+// @lengthOf(
+, } , match
+    // `tick` ""quote"" 'q'
+    leftPad as string_{
+""abc"" : options1 10 : string_ // " ++ [27880; 37322]%N ++ runes_of_ascii "
+,0
+:
+calculatedFrom
+// `tick` ""quote"" 'q'
+// " ++ [27880; 37322]%N ++ runes_of_ascii "
+, 255
+// a // b
+// " ++ [128512]%N ++ runes_of_ascii " emoji
+:	lengthOf , 3  :// a // b
+falsey""\n"" : matchKey ,
+    } ,@tag( 42 ) uint8x
+,repeat zchar { match Foo
+    as
+    // " ++ [128512]%N ++ runes_of_ascii " emoji
+    Z9_
+{ 007:  rootA
+, } ,
+    zchar[ 42 ] u  ,
+// " ++ [27880; 37322]%N ++ runes_of_ascii "
+//x
+} ,repeat u8x{
+    char[ 42 ] lengthOf , },float32 i64_,
+    int8 trueish	@calculatedFrom(
+""CRC32"") ,
+@calculatedFrom(
+""a	b""  )
+@calculatedFrom(""" ++ [28040; 24687]%N ++ runes_of_ascii """ )@leftPad ( ' '  ) charz len`{ , }`,	@tag( 65535 )
+repeat zchar[1 ]	roots `it's`
+, @tag( 42 ) zchar[ 7] // " ++ [27880; 37322]%N ++ runes_of_ascii "
+i8i8
+    , }MetaData Packet { // a // b
+u32
+    Pad ,
+} packet o
+    {
+} MetaData uint8x {
+zchar[
+4294967296 ]Z9_ `u8 x,` ,
+    char[]
+    Packet	, o Packet ,asx float , f32a asx
+    ,string  x_y_z ,} 	 ")).
+Eval vm_compute in ("<<<M178>>>" ++ check (runes_of_ascii "//
+packet Pad{
+    BodyLength  `line1
+line2` ,// a // b
+Pad @lengthOf( u8x ) `100% of %d` , @lengthOf(  roots)char[]
+Header@calculatedFrom( ""`tick`""
+)
+    ,match
+repeatCount as x {
+42 : float	,
+//x
+//
+007
+    // trailing space 
+    : u , }, // 50% %s
+@calculatedFrom( ""a	b""  ) string_ { matchKey string_ , } ,
+    repeat char[]  repeatCount ,@tag(
+    0 )
+@rightPad (
+'0'
+    ) match leftPad as lengthOf { 007 :
+roots
+, 42 : o
+[ 00
+    , 65535 // " ++ [27880; 37322]%N ++ runes_of_ascii "
+, 0123456789 // @lengthOf(
+,
+255 , 65535// 50% %s
+,
+    ""a\\"" ,
+//	t
+/// triple
+65535
+] : msg_type  , }, char[ 10]f32a @calculatedFrom(
+    ""CRC32"" ) `doc` ,
+@tag(//	t
+3
+    ) repeat string  roots
+,// 50% %s
+rootA { match zchar as zchar { [ 7 ,3 ]	: asx
+    ,  ""abc"":Pad ,
+4294967296 : charz ,//x
+} , u64 //	t
+A `" ++ [28040; 24687; 31867; 22411]%N ++ runes_of_ascii "` , f32
+    msg_type
+@lengthOf( o )
+, } , } root packet options1 {
+    } options {	repeatCount// @lengthOf(
+= true ; } MetaData u
+{
+    // a // b
+    Logon
+x, Z9_ x
+    `u8 x,` , zchar[
+10 ]
+    Packet
+    `it's` ,	i8
+a1
+    `two words` , }root
+    packet string_
+    //
+    {  repeat As { stringy `100% of %d` ,uint8x { packetx @calculatedFrom(""\n"" ) `doc` , match string_ as crc{ // trailing space 
+4294967296 : Pad [ """"
 //x
 // a // b
-,repeat repeatCount x_y_z`a\` ,	int8 msg_type
 ,
-    } , // `tick` ""quote"" 'q'
-msg_type @lengthOf( body ) , u64 rootA @calculatedFrom(
-""" ++ [128512]%N ++ runes_of_ascii """
-    ) ,@calculatedFrom(""packet""	) i32
-    Header ,	uint32 BodyLength @lengthOf(
-trueish //x
-)
-, @lengthOf(
-f32a ) f32
-    Z9_ `{ , }`, } // a // b")).
-Eval vm_compute in ("<<<M90>>>" ++ check (runes_of_ascii "options{ calculatedFrom
-= '0'; }
-root
-    // " ++ [128512]%N ++ runes_of_ascii " emoji
-    packet metadata{i64 float@calculatedFrom( ""1"" )	,	@rightPad ( // trailing space 
-) Logon u `crlf
-line` , // trailing space 
-falsey Packet `line1
-line2` , u32	a1  `tab	here`, } // " ++ [128512]%N ++ runes_of_ascii " emoji
-options { lengthOf
-    // packet A { u8 x, }
-    = '\x00'
-msg_type =
-uint8;repeatCount
-    // `tick` ""quote"" 'q'
-    =
-0123456789 ; } //x")).
-Eval vm_compute in ("<<<M1830>>>" ++ check (runes_of_ascii "packet Sub {
-    // c2
-    u8 a,// c5
-    @calculatedFrom(""CRC16"")
-    // c8
-    i16 SubSum,
-}// c12a
-
-// c12b
-root packet Frame {
-    u16 MsgType,// c19
-    u16 BodyLen @lengthOf(Body),// c25a
-    // c25b
-    Sub Body,// c28
-    string note,// c31
-    @calculatedFrom(""CRC16"")
-    // c34
-    i16 Checksum,
-    // c37
-    u8 tail,// c40
-}")).
-Eval vm_compute in ("<<<M1200>>>" ++ check (runes_of_ascii "// top
-packet // c0
-u128 // c1
-{ // c2
-@lengthOf( // c3
-body // c4
-) // c5
-match // c6
-x_y_z // c7
-as // c8
-u // c9
-{ // c10
-""x y"" // c11
-: // c12
-i8i8 // c13
-, // c14
-} // c15
-, // c16
-@tag( // c17
-255 // c18
-) // c19
-char[] // c20
-roots // c21
-@lengthOf( // c22
-int // c23
-) // c24
-, // c25
-} // c26
-")).
-Eval vm_compute in ("<<<M1618>>>" ++ check (runes_of_ascii "
-
-  packet
-calculatedFrom{
-@lengthOf( 
-zchar
-
-    )
-char[]// `tick` ""quote"" 'q'
-	chars  `line1
-line2`
+007
+    , 007 // " ++ [27880; 37322]%N ++ runes_of_ascii "
 ,
-
-string 
-Logon
-
-@calculatedFrom( ""it's"") 
-,
-matchKey
-	`say ""hi""`
-,@lengthOf(
-T
-    // c
-    ) x_y_z
-@calculatedFrom(
-
-""it's"") 
-`// not a comment`
-
-    ,
-	}")).
-Eval vm_compute in ("<<<M1726>>>" ++ check (runes_of_ascii "
-//
-  	packet
-u
-    { 
-}
-packet	u8x
-{
-    }	options {	Logon=
-	string
-
-;
-calculatedFrom =
-	'\x00'
-;
-    BodyLength	// " ++ [27880; 37322]%N ++ runes_of_ascii "
-    =
-
-1
-
-; //	t
-
-_x // " ++ [27880; 37322]%N ++ runes_of_ascii "
-
-=
-    ""CRC32""  ;  }
-	root 
-
-/// triple
-  // " ++ [27880; 37322]%N ++ runes_of_ascii "
-  packet  Z9_  {
-	}	MetaData 
-chars
-    { }
-
-")).
-Eval vm_compute in ("<<<M1468>>>" ++ check (runes_of_ascii "packet Sub {
-    u8 a,
-    u32 SubSum @calculatedFrom(""CRC16""),
-}
-root packet Frame {
-    u16 MsgType,
-    u16 BodyLen @lengthOf(Body),
-    Sub Body,
-    string note,
-    u32 Checksum @calculatedFrom(""CRC16""),
-    u8 tail,
-}
-")).
-Eval vm_compute in ("<<<M537>>>" ++ check (runes_of_ascii "options
-{
-matchKey = 42/// triple
-x='0' ;
-// packet A { u8 x, }
-//
-charz
-=
-// packet A { u8 x, }
-// trailing space 
-true  ; } MetaData BodyLength
-{
-uint8
-pack,zchar[ 1]float ,  float32 x_y_z `` ,u32
-_x _x,i16 body  , }
-")).
-Eval vm_compute in ("<<<M483>>>" ++ check (runes_of_ascii "options
-{
-matchKey = 42/// triple
-x='0' ;
-// packet A { u8 x, }
-//
-charz
-=
-// packet A { u8 x, }
-// trailing space 
-true  ; } MetaData BodyLength
-{
-uint8
-pack zchar[, 1]float ,  float32 x_y_z `` ,u32
-_x,i16 body  , }
-")).
-Eval vm_compute in ("<<<M458>>>" ++ check (runes_of_ascii "options
-{
-matchKey = 42/// triple
-x='0' ;
-// packet A { u8 x, }
-//
-charz
-=
-// packet A { u8 x, }
-// trailing space 
-true  ; } BodyLength MetaData
-{
-uint8
-pack,zchar[ 1]float ,  float32 x_y_z `` ,u32
-_x,i16 body  , }
-")).
-Eval vm_compute in ("<<<M514>>>" ++ check (runes_of_ascii "options
-{
-matchKey = 42/// triple
-x='0' ;
-// packet A { u8 x, }
-//
-charz
-=
-// packet A { u8 x, }
-// trailing space 
-true  ; } MetaData BodyLength
-{
-uint8
-pack,zchar[ 1]float ,  repeat x_y_z `` ,u32
-_x,i16 body  , }
-")).
-Eval vm_compute in ("<<<M251>>>" ++ check (runes_of_ascii "MetaData rootA	{
-roots Header ,} root packet chars{ @tag(  1  )
-repeat char[] stringy `doc` ,}
-    root packet int{ uint8x MetaDataX	, }MetaData Logon {
-x_y_z
-i64_// @lengthOf(
-,Z9_
-_x , body crc `say ""hi""`,
-}
-")).
-Eval vm_compute in ("<<<M530>>>" ++ check (runes_of_ascii "options
-{
-matchKey = 42/// triple
-x='0' ;
-// packet A { u8 x, }
-//
-charz
-=
-// packet A { u8 x, }
-// trailing space 
-true  ; } MetaData BodyLength
-{
-uint8
-pack,zchar[ 1]float ,  float32 x_y_z ``")).
-Eval vm_compute in ("<<<M702>>>" ++ check (runes_of_ascii "// c
-packet i64_ {	char[] calculatedFrom , } packet
-trueish  {@calculatedFrom(
-""a\\"" ) o { i32 falsey@lengthOf( uint8x )char[]
-} , } // `tick` ""quote"" 'q'
-options {// c
-Z9_ = ' '//
-}
-")).
-Eval vm_compute in ("<<<M689>>>" ++ check (runes_of_ascii "// c
-packet i64_ {	char[] calculatedFrom , } packet
-trueish  {@calculatedFrom(
-""a\\"" ) { o i32 falsey@lengthOf( uint8x ),
-} , } // `tick` ""quote"" 'q'
-options {// c
-Z9_ = ' '//
-}
-")).
-Eval vm_compute in ("<<<M680>>>" ++ check (runes_of_ascii "// c
-packet i64_ {	 calculatedFrom , } packet
-trueish  {@calculatedFrom(
-""a\\"" ) o { i32 falsey@lengthOf( uint8x ),
-} , } // `tick` ""quote"" 'q'
-options {// c
-Z9_ = ' '//
-}
-")).
-Eval vm_compute in ("<<<M490>>>" ++ check (runes_of_ascii "options
-{
-matchKey = 42/// triple
-x='0' ;
-// packet A { u8 x, }
-//
-charz
-=
-// packet A { u8 x, }
-// trailing space 
-true  ; } MetaData BodyLength
-{
-uint8
-pack,")).
-Eval vm_compute in ("<<<M186>>>" ++ check (runes_of_ascii "//	t
-MetaData asx { char[]asx , x
-_x , } root packet lengthOf{ @tag(
-10
-)@rightPad ( '0' )
-    @rightPad('0' ) // " ++ [128512]%N ++ runes_of_ascii " emoji
-u32
-BodyLength, //	t
-}
-")).
-Eval vm_compute in ("<<<M1855>>>" ++ check (runes_of_ascii "
-
-  //x
-  packet
-
-    uint8x{u8 // packet A { u8 x, }
-	roots
-`a\`  , match
-	len
-
-    as
-charz
-{ 
-[
-
-    3,
-
-""""
-] 
+""x y"" ,	0123456789 ]
 :
-Z9_
-,	}, }
+calculatedFrom
+    3:
+    Logon }
+// " ++ [27880; 37322]%N ++ runes_of_ascii "
+// " ++ [27880; 37322]%N ++ runes_of_ascii "
+,
+} ,} , char[
+0 ] // c
+Packet `two words`
+, }
 ")).
-Eval vm_compute in ("<<<M1653>>>" ++ check (runes_of_ascii "
-MetaData Logon	{
-zchar[
+Eval vm_compute in ("<<<M1408>>>" ++ check (runes_of_ascii "options {
+    StringPrefixLenType = u16;
+    ArrayPrefixLenType = u16;
+}
 
-    10
-    ]
-float  `" ++ [233]%N ++ runes_of_ascii "`  ,BodyLength  Z9_,
-float32 o
-    `a\`	, uint64 roots `two words`	// " ++ [27880; 37322]%N ++ runes_of_ascii "
-  ,
+packet SampleBinary {
+    uint16 MsgType `" ++ [28040; 24687; 31867; 22411]%N ++ runes_of_ascii "`,
+    u16 BodyLenght @lengthOf(Body) `" ++ [28040; 24687; 20307; 38271; 24230]%N ++ runes_of_ascii "`,
+    match MsgType as Body {
+        1 : Logon,
+        2 : Logout,
+        3 : Heartbeat,
+        4 : RiskControlRequest,
+        5 : RiskControlResponse,
+    },
+    @calculatedFrom(""CRC32"")
+    u32 Ckecksum `" ++ [26657; 39564; 21644]%N ++ runes_of_ascii "`,
+}
+
+packet Logon {
+    @leftPad('0')
+    char[10] UserName `" ++ [29992; 25143; 21517]%N ++ runes_of_ascii "`,
+    string Password `" ++ [23494; 30721]%N ++ runes_of_ascii "`,
+    uint64 ClientId `" ++ [23458; 25143; 31471]%N ++ runes_of_ascii "ID`,
+    u16 HeartbeatInterval `" ++ [24515; 36339; 38388; 38548]%N ++ runes_of_ascii "`,
+}
+
+packet Logout {
+    @rightPad('0')
+    char[10] UserName `" ++ [29992; 25143; 21517]%N ++ runes_of_ascii "`,
+    uint64 ClientId `" ++ [23458; 25143; 31471]%N ++ runes_of_ascii "ID`,
+}
+
+packet Heartbeat {
+}
+
+packet RiskControlRequest {
+    string UniqueOrderId `" ++ [21807; 19968; 35746; 21333; 21495]%N ++ runes_of_ascii "`,
+    char[16] ClOrdID `" ++ [23458; 25143; 35746; 21333; 21495]%N ++ runes_of_ascii "`,
+    char[3] MarketID `" ++ [24066; 22330]%N ++ runes_of_ascii "id`,
+    char[12] SecurityID `" ++ [35777; 21048; 20195; 30721]%N ++ runes_of_ascii "`,
+    char Side `" ++ [20080; 21334; 26041; 21521]%N ++ runes_of_ascii "`,
+    char OrderType `" ++ [35746; 21333; 31867; 22411]%N ++ runes_of_ascii "`,
+    u64 Price `" ++ [20215; 26684]%N ++ runes_of_ascii "`,
+    u32 Qty `" ++ [25968; 37327]%N ++ runes_of_ascii "`,
+    repeat string ExtraInfo `" ++ [38468; 21152; 20449; 24687]%N ++ runes_of_ascii "`,
+    repeat SubOrder {
+        char[16] ClOrdID `" ++ [23376; 35746; 21333; 21495]%N ++ runes_of_ascii "`,
+        u64 Price `" ++ [23376; 35746; 21333; 20215; 26684]%N ++ runes_of_ascii "`,
+        u32 Qty `" ++ [23376; 35746; 21333; 25968; 37327]%N ++ runes_of_ascii "`,
+    },
+}
+
+packet RiskControlResponse {
+    string UniqueOrderId `" ++ [21807; 19968; 35746; 21333; 21495]%N ++ runes_of_ascii "`,
+    i32 Status `" ++ [29366; 24577]%N ++ runes_of_ascii "`,
+    string Msg `" ++ [32467; 26524; 20449; 24687]%N ++ runes_of_ascii "`,
+    repeat Detail,
+}
+
+packet Detail {
+    string RuleName `" ++ [35268; 21017; 21517; 31216]%N ++ runes_of_ascii "`,
+    u16 Code `" ++ [21407; 22240; 20195; 30721]%N ++ runes_of_ascii "`,
 }")).
-Eval vm_compute in ("<<<M1393>>>" ++ check (runes_of_ascii "packet
-
-    order_item 
+Eval vm_compute in ("<<<M1127>>>" ++ check (runes_of_ascii "packet
+len
+{ repeat leftPad
+    `line1
+line2` // trailing space 
+,	@leftPad (
+'0' )
+match f32a
+//
+// `tick` ""quote"" 'q'
+as leftPad {[ 42 ,10 ,""// no comment"" , """ ++ [128512]%N ++ runes_of_ascii """  ] // a // b
+: // a // b
+leftPad , // packet A { u8 x, }
+""{,}"" : A ,
+[ 007
+, 65535,7 , 1
+, 3
+    ,	""\n""
+    ,	""\" ++ [233]%N ++ runes_of_ascii """ // 50% %s
+,""" ++ [233]%N ++ runes_of_ascii "t" ++ [233]%N ++ runes_of_ascii """
+    // `tick` ""quote"" 'q'
+    ] :matchKey , 0:	trueish
+    ,
+[
+    """ ++ [28040; 24687]%N ++ runes_of_ascii """,
+    42 ,0123456789 , """"
+/// triple
+// @lengthOf(
+,42	,
+4294967296] :
+chars , } ,	@calculatedFrom(
+""x y"" ) @tag( 4294967296) @tag( // a // b
+1 )zchar[ 255
+// " ++ [128512]%N ++ runes_of_ascii " emoji
+// " ++ [128512]%N ++ runes_of_ascii " emoji
+]
+chars
+,
+// @lengthOf(
+// `tick` ""quote"" 'q'
+uint16 roots @lengthOf(
+    charz)
+    `say ""hi""` ,
+    repeat zchar
+    Logon , match u as chars { 42:
+u 007 :	T, 007 : metadata, """"
+:i64_
+// 50% %s
+// " ++ [27880; 37322]%N ++ runes_of_ascii "
+,
+} ,
+zchar[3 ]
+// @lengthOf(
+// " ++ [128512]%N ++ runes_of_ascii " emoji
+o @lengthOf(  x_y_z ) `tab	here` ,@lengthOf( A )  a1 `line1
+line2` , match MetaDataX
+    as MetaDataX{ 4294967296 :
+// `tick` ""quote"" 'q'
+// trailing space 
+_x,
+"""" : tag , [ ""it's"" ,  ""// no comment"" ]	: zchar ,
+} ,
+repeat leftPad , } MetaData Z9_ {u64
+    matchKey ,i32 As `doc` ,
+    char[0123456789]
+    //
+    charz `" ++ [233]%N ++ runes_of_ascii "`
+,f32 zchar	`a\` ,
+    //	t
+    } 	 ")).
+Eval vm_compute in ("<<<M813>>>" ++ check (runes_of_ascii "root
+// c
+// " ++ [27880; 37322]%N ++ runes_of_ascii "
+packet f32a
+    { }
+    root packet matchKey {
+    char[
+1 // " ++ [27880; 37322]%N ++ runes_of_ascii "
+] metadata  ,char[] u128
+@lengthOf(
+msg_type ) `doc`, @lengthOf( uint8x) match zchar
+    as
+    options1 {
+0123456789 : x 007 : repeatCount[ ""packet""  ,
+0123456789 ,""// no comment"" , ""x y"" ]/// triple
+: Header ,
+3
+    :MetaDataX
+    ""// no comment""
+:len
+, [0 ] :
+Header, } ,repeat f32a	{ // " ++ [27880; 37322]%N ++ runes_of_ascii "
+repeat
+    Header //
+,
+    // 50% %s
+    calculatedFrom
+{ a1 { leftPad
+`a\` /// triple
+, zchar[255 ]
+f32a // @lengthOf(
+@calculatedFrom( ""\n"") `100% of %d` ,Foo// @lengthOf(
+@lengthOf(
+o ) `two words`, } , }
+,} , char[ 00]// @lengthOf(
+f32a
+@calculatedFrom(
+//
+// @lengthOf(
+""" ++ [128512]%N ++ runes_of_ascii """	)`u8 x,` ,  match tag
+as matchKey
+    //x
+    {[
+3
+    ,""\n""
+, 255
+// @lengthOf(
+// " ++ [128512]%N ++ runes_of_ascii " emoji
+,
+007	, ""CRC32"", ""`tick`""	]
+:
+    o  }  ,  repeat f64 rootA
+    // 50% %s
+    ,}
+options // `tick` ""quote"" 'q'
+{ }
+MetaData trueish {string
+    int  , // " ++ [27880; 37322]%N ++ runes_of_ascii "
+char[
+65535 ] trueish,
+char[] body
+    `u8 x,` , pack//x
+matchKey // 50% %s
+`a\` , f32	Header , string_
+Foo, }options //
+{ roots = int32 ;	Pad=zchar[255 ] // " ++ [128512]%N ++ runes_of_ascii " emoji
+}
+")).
+Eval vm_compute in ("<<<M403>>>" ++ check (runes_of_ascii "root packet	_x
+// trailing space 
+// " ++ [128512]%N ++ runes_of_ascii " emoji
 {
-	u8	a  ,	}
-root 
+match Packet as
+    // a // b
+    msg_type {
+    """" :
+    trueish
+/// triple
+// a // b
+""" ++ [28040; 24687]%N ++ runes_of_ascii """
+:
+uint8x , ""a\\"" : T
+, 00	:
+_x ,""`tick`"" : Logon	}
+, // " ++ [128512]%N ++ runes_of_ascii " emoji
+@lengthOf( //	t
+Logon ) @calculatedFrom( ""a\""b"" ) @leftPad
+( ' ') int8 leftPad
+    , // @lengthOf(
+repeat
+    i32 i8i8
+,
+@lengthOf( metadata )
+// a // b
+// a // b
+string trueish// packet A { u8 x, }
+@calculatedFrom( ""CRC32"" ) `" ++ [233]%N ++ runes_of_ascii "`	,
+    @calculatedFrom( ""packet"" )@calculatedFrom( ""abc"" ) char[
+3
+]
+uint8x
+`
+`
+    ,
+match
+_x
+    // packet A { u8 x, }
+    as
+BodyLength{ 7 :
+// c
+// @lengthOf(
+repeatCount// c
+,
+""\" ++ [233]%N ++ runes_of_ascii """ : lengthOf,4294967296 //	t
+:
+    // @lengthOf(
+    MetaDataX , [
+""" ++ [128512]%N ++ runes_of_ascii """ ,00 ]	:  o
+//x
+// packet A { u8 x, }
+,
+    ""CRC32""
+//x
+// `tick` ""quote"" 'q'
+: matchKey  , 7
+    // 50% %s
+    : lengthOf ,} , int8 leftPad@calculatedFrom( """ ++ [233]%N ++ runes_of_ascii "t" ++ [233]%N ++ runes_of_ascii """ )  , }packet x_y_z { @lengthOf(
+_x) MetaDataX {char[ 00	] x @calculatedFrom( // trailing space 
+""" ++ [128512]%N ++ runes_of_ascii """
+), match u128 as i8i8{
+[	"""" ] :uint8x, } ,// 50% %s
+} ,}")).
+Eval vm_compute in ("<<<M4546>>>" ++ check (runes_of_ascii "packet options1 {
+    body {
+        i8 i8i8,
+        falsey @calculatedFrom(""" ++ [28040; 24687]%N ++ runes_of_ascii """),
+        a1 @calculatedFrom(""a	b"") `tab	here`,
+    },
+    u8 u8x `u8 x,`,
+    @leftPad(' ')
+    @lengthOf(a1)
+    @tag(42)
+    // 50% %s
+    uint8x @calculatedFrom(""{,}""),
+    @tag(65535)
+    @tag(42)
+    repeat uint64 i64_ `{ , }`,
+    @leftPad('\x00')
+    uint16 stringy,
+    zchar,
+    repeat i64_ leftPad,
+    charz i64_,
+    len @calculatedFrom(""packet""),/// triple
+}// @lengthOf(
+
+packet calculatedFrom {
+    repeat packetx {
+        repeat string options1,
+        // `tick` ""quote"" 'q'
+    },// 50% %s
+    int64 msg_type,
+    @tag(3)
+    leftPad float,
+    match body as Pad {
+        255 : calculatedFrom,
+        [
+            ""it's"", """", ""CRC32"", 4294967296, 10,
+            """ ++ [233]%N ++ runes_of_ascii "t" ++ [233]%N ++ runes_of_ascii """, 0123456789
+        ] : trueish,
+        10 : Z9_,
+        [""a\\""] : roots,
+        0123456789 : rootA,
+    },
+}
+
+options {
+    options1 = 0123456789
+}
+
+options {
+    // " ++ [128512]%N ++ runes_of_ascii " emoji
+}")).
+Eval vm_compute in ("<<<M290>>>" ++ check (runes_of_ascii "root packet
+    lengthOf{
+    char[]A @lengthOf( tag )
+    ,
+@tag(
+    7
+) char[ 4294967296
+]a1 `` //
+, @leftPad ( ' '
+) repeat char[	10 ]
+    // trailing space 
+    f32a ,
+    uint16 As
+    ,
+// " ++ [27880; 37322]%N ++ runes_of_ascii "
+// packet A { u8 x, }
+} root/// triple
 packet
-    new_order
+charz { @calculatedFrom(
+    ""// no comment""// trailing space 
+) @leftPad( ) @tag(10 )	repeat float u8x `" ++ [233]%N ++ runes_of_ascii "`
+,@lengthOf( rootA)  repeat zchar[10 ] Z9_
+    , int32 leftPad@calculatedFrom(""a\\"" ) ,repeat // " ++ [27880; 37322]%N ++ runes_of_ascii "
+zchar[	7 ] roots
+, @calculatedFrom( ""a\\"" )@lengthOf(string_ )@calculatedFrom(
+""{,}"" //x
+)
+uint8x // @lengthOf(
+`// not a comment` ,
+    @tag(3 // `tick` ""quote"" 'q'
+)body tag
+`" ++ [28040; 24687; 31867; 22411]%N ++ runes_of_ascii "` , @tag(00 )match Pad as
+tag {// " ++ [128512]%N ++ runes_of_ascii " emoji
+""a	b""
+: int 4294967296 : u
+    , [""// no comment"" , // trailing space 
+""1""]: body } , @tag( 1
+) @lengthOf(calculatedFrom )
+@calculatedFrom(""a\""b"" ) lengthOf	@lengthOf(	chars ) , }root
+packet f32a { } root packet Z9_
+{ }")).
+Eval vm_compute in ("<<<M4501>>>" ++ check (runes_of_ascii "
+
+  packet
+u 	 /// triple
+		{A,  u	repeatCount
+    `tab	here`  , @lengthOf(	//
+	msg_type
+
+) crc@lengthOf(  // @lengthOf(
+	len  
+  // c
+  )
+
+    , char[] 
+matchKey,  @calculatedFrom(
+""" ++ [28040; 24687]%N ++ runes_of_ascii """
+
+    ) repeat	Z9_	,
+	zchar[
+    65535
+
+]
+
+    charz
+
+,  i16 pack	@lengthOf(
+charz )
+,  chars	@calculatedFrom(	""\n"" 	 //x
+    )  , @rightPad ( '0' )	int16
+
+    calculatedFrom
+
+`crlf
+line`
+
+,@tag(
+7  )
+    int64
+chars `doc`// a // b
+    	,  } 
+packet chars
+	{ char[
+42	] asx @calculatedFrom(  ""packet"" ) , match // trailing space 
+  roots as crc
+    {	//
+
+	0 :u
+    ,// c
+
+00
+	:
+    f32a
+,
+
+    [
+65535
+,
+
+""abc"" ]
+
+    :
+
+// `tick` ""quote"" 'q'
+    // packet A { u8 x, }
+falsey
+    , // " ++ [27880; 37322]%N ++ runes_of_ascii "
+
+	""{,}"" 
+	    //	t
+	/// triple
+
+	:
+tag ,	} , calculatedFrom
+    i8i8
+`two words`	, 
+	    // packet A { u8 x, }
+	}  options{ _x 
+= char[] 
+        /// triple
+  ;}
+")).
+Eval vm_compute in ("<<<M654>>>" ++ check (runes_of_ascii "MetaData leftPad {
+    f32a
+BodyLength, i8 stringy`two words`,zchar[ // trailing space 
+42] calculatedFrom // a // b
+,
+string
+chars
+,}
+    options	{u =3	}
+packet
+    lengthOf
+{	repeat
+u `
+`	,
+    i64_
+    `" ++ [28040; 24687; 31867; 22411]%N ++ runes_of_ascii "`
+    ,@rightPad (
+) As
+float , zchar[
+    // c
+    7
+    ] options1
+    @calculatedFrom(
+    ""a	b""
+// trailing space 
+// " ++ [128512]%N ++ runes_of_ascii " emoji
+) , char[] _x@calculatedFrom( """ ++ [128512]%N ++ runes_of_ascii """) , @rightPad ( ' ' ) Header `it's` , i8 tag @calculatedFrom( """ ++ [233]%N ++ runes_of_ascii "t" ++ [233]%N ++ runes_of_ascii """	) `` , metadata @calculatedFrom(  ""// no comment"" )  , } packet
+    Foo { @calculatedFrom( ""\n""
+    )@rightPad ( ) match T
+as
+Pad
+    { """ ++ [28040; 24687]%N ++ runes_of_ascii """:
+Header
+,
+    } ,	u {chars @calculatedFrom(
+""\" ++ [233]%N ++ runes_of_ascii """ ) ,
+} , @calculatedFrom( ""a\""b""
+) @calculatedFrom(
+    """ ++ [128512]%N ++ runes_of_ascii """ ) // packet A { u8 x, }
+@lengthOf( BodyLength) uint8x@calculatedFrom( ""`tick`"")	, i32
+// packet A { u8 x, }
+// 50% %s
+u
+,	}
+")).
+Eval vm_compute in ("<<<M100>>>" ++ check (runes_of_ascii "root packet
+trueish {o@calculatedFrom(
+    // c
+    ""abc""	)
+// c
+/// triple
+,
+    // packet A { u8 x, }
+    }  packet
+matchKey
+    /// triple
+    {repeat metadata `u8 x,`
+,// a // b
+@leftPad
+    //
+    (
+'0' )
+Foo	{ match A
+    as x_y_z
+{ [
+""\n"" , //	t
+""" ++ [128512]%N ++ runes_of_ascii """
+    , 1
+, 42
+, """ ++ [233]%N ++ runes_of_ascii "t" ++ [233]%N ++ runes_of_ascii """ //	t
+]: A ,} ,
+} ,	@tag(
+    // `tick` ""quote"" 'q'
+    3) BodyLength	, char Z9_ , @leftPad ( '0'
+    ) repeat a1 , @calculatedFrom( // " ++ [27880; 37322]%N ++ runes_of_ascii "
+""CRC32""	)repeat
+    u16 T	, @calculatedFrom( ""it's"" )repeat zchar[ 65535 ]asx , A @lengthOf(
+len )
+    , } MetaData
+    Foo { } MetaData f32a { Logon u128 `line1
+line2` , float o
+, metadata
+trueish
+,
+    //
+    char options1`" ++ [28040; 24687; 31867; 22411]%N ++ runes_of_ascii "`
+    /// triple
+    , } options {
+/// triple
+// `tick` ""quote"" 'q'
+T = 1 ; len
+    = '\x00'
+; Packet
+=
+    ""it's"" lengthOf =
+    i8 }")).
+Eval vm_compute in ("<<<M647>>>" ++ check (runes_of_ascii "packet
+    msg_type {  @rightPad
+( '\x00')	calculatedFrom
+chars,
+} packet
+// " ++ [128512]%N ++ runes_of_ascii " emoji
+// " ++ [27880; 37322]%N ++ runes_of_ascii "
+string_ { }
+MetaData o{ zchar[ 65535
+] a1
+, } root
+packet Foo {	f32a{ // " ++ [128512]%N ++ runes_of_ascii " emoji
+match len
+as
+Packet { [ 3
+    ] : body ,
+7: o  [ 00 ,
+    0 ,""x y"" // trailing space 
+,
+    // trailing space 
+    42 ]: u , """ ++ [28040; 24687]%N ++ runes_of_ascii """
+: Pad , }, i64
+A, string u8x, match stringy as As {65535 : i8i8 // " ++ [27880; 37322]%N ++ runes_of_ascii "
+, //x
+""CRC32"":u8x [ ""a\""b""
+    ,// @lengthOf(
+7 , ""\n""
+    , ""{,}"" , 0
+,
+// `tick` ""quote"" 'q'
+// a // b
+42, ""a\""b"" ]
+: MetaDataX // trailing space 
+,[ ""abc""] :
+    falsey
+, // @lengthOf(
+[ ""`tick`"" ]
+: calculatedFrom //
+, }
+,
+    } //x
+, } // " ++ [128512]%N ++ runes_of_ascii " emoji
+options
+{body = ""CRC32""
+    ; body =
+""a\""b""	u128
+= true ;
+    BodyLength  = // " ++ [128512]%N ++ runes_of_ascii " emoji
+10;
+leftPad=
+false ;}
+
+")).
+Eval vm_compute in ("<<<M26>>>" ++ check (runes_of_ascii "packet u128
+    {zchar[7 ] Logon `` , @leftPad (
+'\x00' ) repeat Logon `
+` ,
+    Pad  MetaDataX
+    ,  @rightPad
+    // a // b
+    ( ) char	pack ,@lengthOf( matchKey ) repeat roots { char[
+//
+// c
+00 ]
+Logon `// not a comment`
+// a // b
+// @lengthOf(
+,	}	,
+    // 50% %s
+    @calculatedFrom(
+""1"" ) repeat x_y_z { tag MetaDataX
+//x
+// 50% %s
+`two words` ,msg_type@calculatedFrom( """ ++ [233]%N ++ runes_of_ascii "t" ++ [233]%N ++ runes_of_ascii """
+    ) `" ++ [28040; 24687; 31867; 22411]%N ++ runes_of_ascii "` ,int64 zchar @calculatedFrom(
+    ""a\\""
+) ,
+BodyLength @lengthOf( tag )
+, } ,
+    uint64 a1,}
+packet x { repeat zchar[ 10 ]falsey  `u8 x,` , }// " ++ [27880; 37322]%N ++ runes_of_ascii "
+options {
+    //	t
+    int
+=
+    ""\n"" float = ""\n""  float
+// `tick` ""quote"" 'q'
+//x
+= ""`tick`"";
+}root
+packet
+    tag {
+    //x
+    x_y_z
+    `crlf
+line` , }
+")).
+Eval vm_compute in ("<<<M4234>>>" ++ check (runes_of_ascii "packet matchKey {
+    @calculatedFrom(""it's"")
+    u128 {
+        repeat msg_type {
+            pack u `// not a comment`,
+            charz @calculatedFrom(""""),
+            match int as float {
+                ""abc"" : As,
+                4294967296 : stringy,
+                255 : rootA,
+            },
+            repeat falsey {
+                falsey charz `crlf
+                                line`,
+                repeat uint64 x_y_z `it's`,
+                i8i8 `" ++ [28040; 24687; 31867; 22411]%N ++ runes_of_ascii "`,
+                uint64 As @lengthOf(trueish) `crlf
+                                line`,
+            },
+        },
+    },
+    packetx As,
+    // " ++ [128512]%N ++ runes_of_ascii " emoji
+    @lengthOf(charz)
+    uint8x u ``,
+}")).
+Eval vm_compute in ("<<<M664>>>" ++ check (runes_of_ascii "MetaData As
+    {
+    }
+    root packet matchKey	{// " ++ [128512]%N ++ runes_of_ascii " emoji
+@calculatedFrom(
+""CRC32""
+)
+    // @lengthOf(
+    @tag(  4294967296 ) repeat char[
+7
+]MetaDataX
+, @lengthOf( pack
+    ) asx @lengthOf( // 50% %s
+zchar
+    // " ++ [27880; 37322]%N ++ runes_of_ascii "
+    )
+    , @calculatedFrom(
+""" ++ [233]%N ++ runes_of_ascii "t" ++ [233]%N ++ runes_of_ascii """ ) zchar[	0123456789 ] // `tick` ""quote"" 'q'
+tag@lengthOf( i8i8
+) `tab	here` , repeat
+// 50% %s
+// `tick` ""quote"" 'q'
+u8x
+,// 50% %s
+uint32 crc `doc` , @leftPad
+( '0' ) @calculatedFrom(
+    ""1"") @tag(
+0
+    //
+    )
+Logon crc ,@lengthOf( zchar ) @rightPad (
+    ) @leftPad	( '\x00'  ) repeat
+    u8
+    //	t
+    options1`// not a comment`, // " ++ [128512]%N ++ runes_of_ascii " emoji
+string repeatCount , }
+    packet u128
+{ }")).
+Eval vm_compute in ("<<<M3891>>>" ++ check (runes_of_ascii "
+packet
+	rootA
+    {repeat
+matchKey  {	A
+	calculatedFrom
+
+`" ++ [233]%N ++ runes_of_ascii "` ,}//	t
+	,f32 
+int 
+, @calculatedFrom(
+
+    ""\" ++ [233]%N ++ runes_of_ascii """
+
+    )match 	 // a // b
+    options1 as 
+    // " ++ [27880; 37322]%N ++ runes_of_ascii "
+    // trailing space 
+		i8i8{ ""// no comment"" : 
+float ,
+0123456789
+	: 
+    // trailing space 
+	calculatedFrom , // packet A { u8 x, }
+
+	4294967296 :
+    calculatedFrom }, @calculatedFrom(
+
+    ""a\\""
+
+)
+charz
 
     {
 
-    order_item
+    repeat
+	lengthOf , 
+char[
+42
+] Header
+	, 
+} 
+,
 
-    ,
+    } root 
+    // packet A { u8 x, }
+// trailing space 
+    packet
+// a // b
+	//	t
+packetx
+	{char[ 	 //	t
+	65535
+    ]
 
-    u8 x ,
-    }
+zchar
+@lengthOf( 
+x_y_z
+    )`two words` 
+, }
 
 ")).
-Eval vm_compute in ("<<<M612>>>" ++ check (runes_of_ascii "MetaData
-    // trailing space 
-    matchKey
-{ u64 chars // a // b
-, ,char[] lengthOf `// not a comment`
-    , //	t
+Eval vm_compute in ("<<<M89>>>" ++ check (runes_of_ascii "MetaData crc { }MetaData
+u{	uint8x float , }
+    // packet A { u8 x, }
+    options {u128
+=char[] }
+    //	t
+    packet string_ {match leftPad
+    as stringy {
+0
+    // c
+    :  i64_	,	4294967296 : Pad , ""abc""	: // `tick` ""quote"" 'q'
+len , // 50% %s
+""" ++ [233]%N ++ runes_of_ascii "t" ++ [233]%N ++ runes_of_ascii """: len ,3
+    :falsey, [ 10 , 3 , 10,007 ] : options1
+    // `tick` ""quote"" 'q'
+    ,
+    } ,// @lengthOf(
+u8x{ match u// " ++ [27880; 37322]%N ++ runes_of_ascii "
+as charz { [ 007 , ""a	b"",
+    ""\" ++ [233]%N ++ runes_of_ascii """ , /// triple
+""" ++ [233]%N ++ runes_of_ascii "t" ++ [233]%N ++ runes_of_ascii """
+    // packet A { u8 x, }
+    , ""a\""b""
+/// triple
+// a // b
+, ""a	b""
+]
+    :
+zchar
+// trailing space 
+//x
+} ,	}
+,@rightPad ('0'
+)
+A @lengthOf( metadata
+),}")).
+Eval vm_compute in ("<<<M4005>>>" ++ check (runes_of_ascii "packet f32a {
+    @tag(4294967296)
+    charz matchKey,
+    @calculatedFrom(""packet"")
+    repeatCount @lengthOf(len),
+    uint32 stringy `
+    `,
+    Foo @lengthOf(string_),
+    repeat char[007] Logon `// not a comment`,
+    zchar[00] len @calculatedFrom(""1""),
+    match len as falsey {
+        ""{,}"" : o,
+    },
+    match body as Z9_ {
+        7 : BodyLength,
+        255 : _x,
+        // a // b
+    },
+    @leftPad('\x00')
+    match f32a as f32a {
+        [10, 0123456789] : a1,
+    },
+    @calculatedFrom(""" ++ [28040; 24687]%N ++ runes_of_ascii """)
+    @calculatedFrom(""abc"")
+    int8 _x `say ""hi""`,
 }")).
-Eval vm_compute in ("<<<M589>>>" ++ check (runes_of_ascii "matchKey
-    // trailing space 
-    MetaData
-{ u64 chars // a // b
-,char[] lengthOf `// not a comment`
-    , //	t
-}")).
-Eval vm_compute in ("<<<M658>>>" ++ check (runes_of_ascii "MetaData
-    // trailing space 
-    matchKey
-{ u64 chars // a // b
-,char[] caf" ++ [233]%N ++ runes_of_ascii "_1 `// not a comment`
-    , //	t
-}")).
-Eval vm_compute in ("<<<M1731>>>" ++ check (runes_of_ascii "
+Eval vm_compute in ("<<<M3630>>>" ++ check (runes_of_ascii "  options  { }	packet	// `tick` ""quote"" 'q'
+
+  x {
+@lengthOf(BodyLength
+	) charz _x
+    `doc`
+, 
+	    //x
+	// packet A { u8 x, }
+	@calculatedFrom(
+    ""abc"") o matchKey,@tag(  255
+
+)
+char 
+	// 50% %s
+  	// @lengthOf(
+		repeatCount
+	@lengthOf(	i64_ 
+
+// a // b
+  )
+,
+} root 
 packet
-    A {
-    match
-k 
-as 
-n
-{	[""a"" , 
-""bb""
+len{@leftPad
+	(
+
+'\x00'
+
+    )
+    //x
+	  // " ++ [27880; 37322]%N ++ runes_of_ascii "
+	Z9_ @lengthOf(
+asx
+
+) ``
+
+    ,  } packet
+    metadata {  char[  00
+]
+	packetx
+@lengthOf(
+
+i8i8 
+) ,
+
+int32
+	Packet @lengthOf(
+
+x_y_z  )
 
     ,
-	""c c"",  ""d""	,  ""e""
 
-, ""f"" , ""g"" ] : 
-B 2 :C 
-}, }")).
-Eval vm_compute in ("<<<M217>>>" ++ check (runes_of_ascii "packet i8i8  { lengthOf lengthOf
-    `u8 x,`
-, }options{u =
-'\x00'; } MetaData i64_ {
-}MetaData Header {}")).
-Eval vm_compute in ("<<<M1257>>>" ++ check (runes_of_ascii "packet calculatedFrom { // c
-@tag( 4294967296 ) u msg_type , char[ 3 ] crc @lengthOf( len ) `u8 x,` , }")).
-Eval vm_compute in ("<<<M1364>>>" ++ check (runes_of_ascii "
-options{
+    @tag(
+1 )
 
-    FixedStringPadFromLeft
+    repeat uint8 len
+
+    , }")).
+Eval vm_compute in ("<<<M4253>>>" ++ check (runes_of_ascii "MetaData 
+string_
+
+    {
+
+msg_type len ,
+	u
+	f32a , roots
+pack ,	tag 
+trueish
+
+    `say ""hi""`
+	,}packet
+
+    trueish{ 
+}
+root packet _x { char[
+
+007 ]Pad
+,	@rightPad ( '0' 
+)
+u//
+  repeatCount, @rightPad
+    ( '0'
+/// triple
+// 50% %s
+  )u16	metadata `100% of %d`,@lengthOf(packetx)
+@rightPad (' ' ) 
+@lengthOf( int
+
+) string// " ++ [27880; 37322]%N ++ runes_of_ascii "
+	repeatCount
+	`
+`
+
+,  string
+
+chars
+    ,
+float32 packetx
+
+    ,
+
+    repeat
+u8
+    msg_type
+	,
+
+    repeat
+tag 	 //	t
+    Logon
+    `say ""hi""`
+
+    ,
+
+    }
+packet	x
+{
+	}
+
+")).
+Eval vm_compute in ("<<<M235>>>" ++ check (runes_of_ascii "MetaData
+    tag{
+    float u8x`say ""hi""` ,f32
+    uint8x, uint8 Z9_	, u8 int, chars f32a	, int16 body `it's` , }packet u128 {@tag( 007) char[7
+    ]
+_x// trailing space 
+@lengthOf(	Logon
+) , float32 u8x , @tag(
+    10 )
+packetx
+Header, pack @lengthOf( x_y_z) `" ++ [233]%N ++ runes_of_ascii "` ,@tag(  42)@leftPad
+    (	' '
+) Z9_ `two words`
+,	@lengthOf(
+    f32a	)
+    u32 f32a
+    ,} options{ pack = 255 ; string_ = '0' ;u128 =
+""abc"" float= ' '}packet u8x
+{ repeat trueish{char[] Z9_ @calculatedFrom(""// no comment"" )  ,
+}  , }
+")).
+Eval vm_compute in ("<<<M4261>>>" ++ check (runes_of_ascii "  options 
+{
+    StringPrefixLenType =  u8
+
+; ArrayPrefixLenType=u16 ; 
+FixedStringPadChar
+=	'0'  ; 
+}packet  Fill
+	{char[  6
+]
+Acct
+
+,	u64 venue
+    ,
+
+    }
+root packet
+    Logout {
+
+    char[]
+    Tail, repeat
+    i8
+f1	,  float64 msgKind ,zchar[	3 ]Note ,	uint64 
+count
+
+    , @leftPad
+(
+' '  )char[ 12
+
+    ]	Px 
+,
+
+u32 
+OrderId 
+, u16
+	tag7 @lengthOf(Body ), 
+match  OrderId
+as  Body  {
+
+[ 
+35
+,
+
+107
+	]
+
+: Fill , } , u32 Ref @calculatedFrom(""CRC32""
+)
+,
+	}
+")).
+Eval vm_compute in ("<<<M3591>>>" ++ check (runes_of_ascii "  packet  f32a
+{@lengthOf(
+    Z9_	// c
+  )
+repeat
+char[4294967296	]
+A
+    ,  i16 asx , 
+@leftPad 
+( 
+'\x00'	)
+char Header
+
+    ,
+zchar[
+	4294967296 ]
+	pack
+
+    ,
+
+match 
+        // " ++ [27880; 37322]%N ++ runes_of_ascii "
+  len	as tag{ 
+[	""" ++ [233]%N ++ runes_of_ascii "t" ++ [233]%N ++ runes_of_ascii """ , 
+1,
+	""`tick`""
+,  0123456789,
+
+    00
+        /// triple
+  	/// triple
+		,""a	b"" ,	""x y"" 	 //	t
+  ,
+    ""CRC32""
+
+]	:  roots 
+// 50% %s
+	/// triple
+,
+
+}
+	,  @tag(
+
+    255
+
+) u128  @lengthOf(
+	trueish
+
+)
+
+    `100% of %d`
+
+,}
+
+")).
+Eval vm_compute in ("<<<M3554>>>" ++ check (runes_of_ascii "
+
+  options
+{  LittleEndian=
+false
+
+    ;
+
+    StringPrefixLenType =
+
+u16 
+;ArrayPrefixLenType
+
+    =u32
+
+    ;FixedStringPadFromLeft
 
 =
 
-    true
+true  ;  FixedStringPadChar
+    = '0'
 
-; } root
-	packet 
-P{
-    char[4
-]z 
-,
+;}  packet Quote
 
-    } ")).
-Eval vm_compute in ("<<<M1665>>>" ++ check (runes_of_ascii "MetaData metadata {
-    leftPad i64_,
-    // " ++ [128512]%N ++ runes_of_ascii " emoji
-    u8 stringy `
-    `,
-    char[] trueish,
-}")).
-Eval vm_compute in ("<<<M1135>>>" ++ check (runes_of_ascii "packet Logon {
-// c
-@tag( 42 ) @rightPad ( ' ' ) @leftPad ( ) repeat trueish { string T , } , }")).
-Eval vm_compute in ("<<<M1167>>>" ++ check (runes_of_ascii "packet Logon { @tag( 42 ) @rightPad ( ' ' ) @leftPad ( ) repeat trueish { string T ,
-// c
-} , }")).
-Eval vm_compute in ("<<<M869>>>" ++ check (runes_of_ascii "packet A {
-  match k as n {
-    [1, ""bb"", 007, ""d"", 5, ""f"", 7, ""h"", 9] : B
-    2 : C
-  },
-}")).
-Eval vm_compute in ("<<<M1987>>>" ++ check (runes_of_ascii "
-packet A
+    {repeat InSide284	{  repeat string
+Acct, int64
 
-{match
-    k
+    OrderId,}  , uint8
+	Px
 
-    as 
-n
-{
-[
-1
-,  22	,  ""c c""  ]
-    : B , 2 
-:
-
-C
-}
-
+, int32
+lastPx  , uint8 Flags  ,  } 
+packet  Fill{ f32 clOrdID	,
+uint32 msgKind  ,
+	repeat Quote
 , }
-")).
-Eval vm_compute in ("<<<M836>>>" ++ check (runes_of_ascii "packet A {
-  match k as n {
-    [""a"", ""bb"", 007, ""d"", ""e"", 66] : B
-    2 : C
-  },
-}")).
-Eval vm_compute in ("<<<M1218>>>" ++ check (runes_of_ascii "packet o { @tag( 42 ) // c
-repeat x { char[ 0123456789 ] i64_ , } , } options { }")).
-Eval vm_compute in ("<<<M1814>>>" ++ check (runes_of_ascii "MetaData matchKey {
-    u64 chars,
-    char[] lengthOf `// not a comment`,//	t" ++ [8232]%N ++ runes_of_ascii "
-}")).
-Eval vm_compute in ("<<<M1704>>>" ++ check (runes_of_ascii "  packet A{
-	match 
-k as
+    root
 
-n {[
-	""a""
-,  ""bb""	,
-
-    007]
-	:	B
-	2:
-C  }  ,
+packet	Trade  {
+    string
+	Acct, 
 }
 ")).
-Eval vm_compute in ("<<<M1715>>>" ++ check (runes_of_ascii "packet A {
+Eval vm_compute in ("<<<M4181>>>" ++ check (runes_of_ascii "options {
+    LittleEndian = false;
+    StringPrefixLenType = u16;
+    ArrayPrefixLenType = u32;
+    FixedStringPadFromLeft = true;
+    FixedStringPadChar = '0';
+}
+
+packet Quote {
+    repeat InSide284 {
+        repeat string Acct,
+        int64 OrderId,
+    },
+    uint8 Px,
+    int32 lastPx,
+    uint8 Flags,
+}
+
+packet Fill {
+    f32 clOrdID,
+    uint32 msgKind,
+    repeat Quote,
+}
+
+root packet Trade {
+    string Acct,
+}")).
+Eval vm_compute in ("<<<M217>>>" ++ check (runes_of_ascii "root packet
+// @lengthOf(
+// `tick` ""quote"" 'q'
+leftPad { @lengthOf(
+i8i8 )  @rightPad (
+    // trailing space 
+    ) @calculatedFrom( ""a	b"" ) repeat
+zchar[ 3 ]
+    leftPad,}
+    MetaData falsey{zchar // " ++ [27880; 37322]%N ++ runes_of_ascii "
+Foo	,zchar[ 65535 ] // packet A { u8 x, }
+pack
+`line1
+line2` ,  char Header `tab	here`
+, f64
+    chars,
+    } packet
+asx { repeat zchar[	3 ] msg_type
+    `// not a comment` , repeat string i8i8 , }")).
+Eval vm_compute in ("<<<M1107>>>" ++ check (runes_of_ascii "packet chars { @leftPad(
+    //	t
+    '0') repeat tag
+a1
+    `// not a comment`
+,match i8i8
+// 50% %s
+//
+as // packet A { u8 x, }
+len { 007:zchar // " ++ [27880; 37322]%N ++ runes_of_ascii "
+, [
+007  ,""CRC32"" ]
+    :
+_x """ ++ [233]%N ++ runes_of_ascii "t" ++ [233]%N ++ runes_of_ascii """: A // " ++ [128512]%N ++ runes_of_ascii " emoji
+,  } ,	@lengthOf(	options1)
+    uint8 tag	,
+    x @lengthOf(
+i8i8 )`" ++ [233]%N ++ runes_of_ascii "`,charz  u8x ,
+@lengthOf( Packet ) @leftPad (
+' ' )
+    uint16 Z9_
+@calculatedFrom(
+    """ ++ [233]%N ++ runes_of_ascii "t" ++ [233]%N ++ runes_of_ascii """
+// a // b
+//	t
+) , }
+
+")).
+Eval vm_compute in ("<<<M259>>>" ++ check (runes_of_ascii "// " ++ [27880; 37322]%N ++ runes_of_ascii "
+packet i64_ { @lengthOf( string_
+/// triple
+// @lengthOf(
+)
+zchar[255 ]  Z9_@lengthOf( Foo
+    ) , @lengthOf(i8i8) @calculatedFrom(
+    ""\" ++ [233]%N ++ runes_of_ascii """
+    ) @calculatedFrom(
+""a\\"" ) f64 pack@lengthOf( falsey) `a\` //
+,
+    uint32 Foo
+    @lengthOf( i64_ )
+    ,
+zchar[ 4294967296 ]
+    calculatedFrom // packet A { u8 x, }
+,
+repeat char[] stringy ,
+    i32 x @lengthOf( T) , }
+")).
+Eval vm_compute in ("<<<M1288>>>" ++ check (runes_of_ascii "options{ crc
+    = ' ' ;} packet  metadata  { @lengthOf( packetx
+)uint64
+    trueish, @tag(255
+)
+match lengthOf as
+u8x { [
+    ""x y"" ,	007
+, ""it's"" ,
+    ""it's""
+    ,255 , /// triple
+00
+, 7 ,	4294967296 ]
+: x_y_z , ""it's"" : lengthOf
+, """ ++ [233]%N ++ runes_of_ascii "t" ++ [233]%N ++ runes_of_ascii """ : tag , 1: charz // packet A { u8 x, }
+} , }
+    options { _x =
+'0' ;
+    // c
+    f32a = 255 ; a1
+= ""// no comment""
+}
+")).
+Eval vm_compute in ("<<<M384>>>" ++ check (runes_of_ascii "MetaData asx { // c
+u8x
+string_ ,zchar
+//	t
+//	t
+repeatCount `doc` //x
+, } root
+packet chars { repeat char[ // @lengthOf(
+1 ]
+options1	, } packet asx {} packet BodyLength {	@lengthOf( metadata
+    // c
+    )
+repeat u	`say ""hi""`
+,
+}	options {// `tick` ""quote"" 'q'
+crc =
+    true ; zchar =	""" ++ [233]%N ++ runes_of_ascii "t" ++ [233]%N ++ runes_of_ascii """ pack=  0	;u128
+    = ""packet"" ; msg_type  = true	}")).
+Eval vm_compute in ("<<<M197>>>" ++ check (runes_of_ascii "packet BodyLength {pack//	t
+{ repeat uint8 u128 `it's`, repeat chars Foo `u8 x,`
+,i32 x_y_z`
+`
+,}, @rightPad
+// " ++ [128512]%N ++ runes_of_ascii " emoji
+/// triple
+(
+    ) chars, }
+    /// triple
+    root packet f32a
+{ @calculatedFrom(""1"" )match repeatCount as matchKey { 0123456789
+:BodyLength 007 : metadata , ""a\""b""
+    :stringy , },repeat f32a
+    tag `a\` ,}
+")).
+Eval vm_compute in ("<<<M3504>>>" ++ check (runes_of_ascii "
+
+  packet
+
+    A  { u8  a 
+,	} 
+packet
+B { u16	b
+
+    ,  }packet
+C
+
+{
+u32	c 
+,} root packet
+	M { u16
+Kc
+
+    ,
+	u16
+
+    Kb  ,
+	u16
+
+    Ka
+, 
+match 
+Kc
+as
+
+    X { 9
+    :
+
+A ,10	:
+
+    B
+	,
+	}
+	,match
+    Kb as
+
+    Y{
+	2: C ,
+1:  A  ,
+
+    } 
+,match	Ka as
+    Z
+{ 1
+    :
+    B, },
+A
+,B	,C ,}")).
+Eval vm_compute in ("<<<M1222>>>" ++ check (runes_of_ascii "MetaData
+Packet{ Packet i8i8 // @lengthOf(
+, } packet repeatCount
+    { repeat u64
+chars // 50% %s
+`" ++ [233]%N ++ runes_of_ascii "` // " ++ [27880; 37322]%N ++ runes_of_ascii "
+, }
+    options// c
+{ Foo =
+// " ++ [27880; 37322]%N ++ runes_of_ascii "
+// trailing space 
+65535 ;
+lengthOf = ""\n"" i8i8 = ""abc"" ;crc = // @lengthOf(
+zchar[
+    0123456789]charz =' '
+    ;
+    // trailing space 
+    } packet x_y_z {
+}")).
+Eval vm_compute in ("<<<M737>>>" ++ check (runes_of_ascii "MetaData Logon
+    { u
+    tag , i8 // trailing space 
+float
+,
+    trueish chars
+`" ++ [233]%N ++ runes_of_ascii "`,
+    char[3] len `it's` , int16 f32a
+    , f32 trueish `tab	here`
+,}
+    packet metadata { @calculatedFrom( """ ++ [28040; 24687]%N ++ runes_of_ascii """ ) @leftPad () u128 , }	packet
+    //
+    o { stringy _x ,calculatedFrom u128`100% of %d` , }
+")).
+Eval vm_compute in ("<<<M3502>>>" ++ check (runes_of_ascii "packet A {
+    u8 a,
+}
+packet B {
+    u16 b,
+}
+packet C {
+    u32 c,
+}
+root packet M {
+    u16 Kc, u16 Kb, u16 Ka,
+    match Kc as X {
+        9 : A,
+        10 : B,
+    },
+    match Kb as Y {
+        2 : C,
+        1 : A,
+    },
+    match Ka as Z {
+        1 : B,
+    },
+    A, B, C,
+}
+")).
+Eval vm_compute in ("<<<M1907>>>" ++ check (runes_of_ascii "packet	packetx { // trailing space 
+x_y_z
+{
+string
+charz ,
+string x// @lengthOf(
+`two words`
+    ,  u8x u8x { // `tick` ""quote"" 'q'
+charz `100% of %d` // packet A { u8 x, }
+,}// " ++ [27880; 37322]%N ++ runes_of_ascii "
+,} , }
+    // a // b
+    packet metadata {  @leftPad ( '0') repeat i32 options1 ,u64 uint8x , }
+")).
+Eval vm_compute in ("<<<M1969>>>" ++ check (runes_of_ascii "packet	packetx { // trailing space 
+x_y_z
+{
+string
+charz ,
+string x// @lengthOf(
+`two words`
+    ,  u8x { // `tick` ""quote"" 'q'
+charz `100% of %d` // packet A { u8 x, }
+,}// " ++ [27880; 37322]%N ++ runes_of_ascii "
+,} , }
+    // a // b
+    packet metadata ' '  @leftPad ( '0') repeat i32 options1 ,u64 uint8x , }
+")).
+Eval vm_compute in ("<<<M1903>>>" ++ check (runes_of_ascii "packet	packetx { // trailing space 
+x_y_z
+{
+string
+charz ,
+string x// @lengthOf(
+`two words`
+    u8x  , { // `tick` ""quote"" 'q'
+charz `100% of %d` // packet A { u8 x, }
+,}// " ++ [27880; 37322]%N ++ runes_of_ascii "
+,} , }
+    // a // b
+    packet metadata {  @leftPad ( '0') repeat i32 options1 ,u64 uint8x , }
+")).
+Eval vm_compute in ("<<<M1856>>>" ++ check (runes_of_ascii "packet	packetx  // trailing space 
+x_y_z
+{
+string
+charz ,
+string x// @lengthOf(
+`two words`
+    ,  u8x { // `tick` ""quote"" 'q'
+charz `100% of %d` // packet A { u8 x, }
+,}// " ++ [27880; 37322]%N ++ runes_of_ascii "
+,} , }
+    // a // b
+    packet metadata {  @leftPad ( '0') repeat i32 options1 ,u64 uint8x , }
+")).
+Eval vm_compute in ("<<<M1981>>>" ++ check (runes_of_ascii "packet	packetx { // trailing space 
+x_y_z
+{
+string
+charz ,
+string x// @lengthOf(
+`two words`
+    ,  u8x { // `tick` ""quote"" 'q'
+charz `100% of %d` // packet A { u8 x, }
+,}// " ++ [27880; 37322]%N ++ runes_of_ascii "
+,} , }
+    // a // b
+    packet metadata {  @leftPad ( ) repeat i32 options1 ,u64 uint8x , }
+")).
+Eval vm_compute in ("<<<M2056>>>" ++ check (runes_of_ascii "packet// packet A { u8 x, }
+repeatCount repeatCount	{// packet A { u8 x, }
+@leftPad ( '\x00'
+) repeat u8x MetaDataX `crlf
+line`,
+    repeat
+    char[] MetaDataX
+    ,
+u64	uint8x@calculatedFrom(""a\""b""
+// c
+// packet A { u8 x, }
+) `tab	here`
+,//
+}MetaData pack
+    {
+    }
+")).
+Eval vm_compute in ("<<<M2085>>>" ++ check (runes_of_ascii "packet// packet A { u8 x, }
+repeatCount	{// packet A { u8 x, }
+@leftPad ( '\x00'
+) repeat repeat u8x MetaDataX `crlf
+line`,
+    repeat
+    char[] MetaDataX
+    ,
+u64	uint8x@calculatedFrom(""a\""b""
+// c
+// packet A { u8 x, }
+) `tab	here`
+,//
+}MetaData pack
+    {
+    }
+")).
+Eval vm_compute in ("<<<M4415>>>" ++ check (runes_of_ascii "root packet float {
+    @calculatedFrom(""// no comment"")
+    Pad uint8x `tab	here`,
+    @leftPad()
+    repeat pack {
+        i8 packetx `doc`,
+    },
+    zchar[0123456789] metadata,
+    @rightPad()
+    @lengthOf(leftPad)
+    repeat char[7] u8x `line1
+    line2`,
+}")).
+Eval vm_compute in ("<<<M2010>>>" ++ check (runes_of_ascii "packet	packetx { // trailing space 
+x_y_z
+{
+string
+charz ,
+string x// @lengthOf(
+`two words`
+    ,  u8x { // `tick` ""quote"" 'q'
+charz `100% of %d` // packet A { u8 x, }
+,}// " ++ [27880; 37322]%N ++ runes_of_ascii "
+,} , }
+    // a // b
+    packet metadata {  @leftPad ( '0') repeat i32 options1")).
+Eval vm_compute in ("<<<M2106>>>" ++ check (runes_of_ascii "packet// packet A { u8 x, }
+repeatCount	{// packet A { u8 x, }
+@leftPad ( '\x00'
+) repeat u8x MetaDataX `crlf
+line`repeat
+    ,
+    char[] MetaDataX
+    ,
+u64	uint8x@calculatedFrom(""a\""b""
+// c
+// packet A { u8 x, }
+) `tab	here`
+,//
+}MetaData pack
+    {
+    }
+")).
+Eval vm_compute in ("<<<M3514>>>" ++ check (runes_of_ascii "packet P1 {
+    u8 a,
+}
+packet P2 {
+    P1,
+}
+packet P3 {
+    P2,
+    P1,
+}
+packet P4 {
+    repeat P3,
+    P2,
+}
+root packet P5 {
+    P4,
+    P3,
+    P1,
+    u8 K,
+    match K as Body {
+        4 : P4,
+        3 : P3,
+        2 : P2,
+        1 : P1,
+    },
+}
+")).
+Eval vm_compute in ("<<<M2074>>>" ++ check (runes_of_ascii "packet// packet A { u8 x, }
+repeatCount	{// packet A { u8 x, }
+@leftPad ( 
+) repeat u8x MetaDataX `crlf
+line`,
+    repeat
+    char[] MetaDataX
+    ,
+u64	uint8x@calculatedFrom(""a\""b""
+// c
+// packet A { u8 x, }
+) `tab	here`
+,//
+}MetaData pack
+    {
+    }
+")).
+Eval vm_compute in ("<<<M352>>>" ++ check (runes_of_ascii "root packet
+    Pad { }
+    packet
+// a // b
+//
+As
+    {Logon  { repeat
+roots{ char[
+007 ]
+roots ,chars
+f32a
+,},
+charz@calculatedFrom( //x
+""" ++ [28040; 24687]%N ++ runes_of_ascii """
+    ) ,zchar[ 3
+    // packet A { u8 x, }
+    ] repeatCount
+`
+` , }, } MetaData u8x {//
+int64 Header, }
+")).
+Eval vm_compute in ("<<<M1579>>>" ++ check (runes_of_ascii "packet calculatedFrom
+{ @calculatedFrom( ""a\\"" ) zchar[ 4294967296 ]
+calculatedFrom@lengthOf( pack )	`100% of %d` ,char[]body@calculatedFrom( ""// no comment"" )  ,
+@tag( 007) //x
+int8
+leftPad`it's` , repeat pack
+    { repeat char[ 3 3] body
+,},
+}")).
+Eval vm_compute in ("<<<M2000>>>" ++ check (runes_of_ascii "packet	packetx { // trailing space 
+x_y_z
+{
+string
+charz ,
+string x// @lengthOf(
+`two words`
+    ,  u8x { // `tick` ""quote"" 'q'
+charz `100% of %d` // packet A { u8 x, }
+,}// " ++ [27880; 37322]%N ++ runes_of_ascii "
+,} , }
+    // a // b
+    packet metadata {  @leftPad ( '0') repeat")).
+Eval vm_compute in ("<<<M1535>>>" ++ check (runes_of_ascii "packet calculatedFrom
+{ @calculatedFrom( ""a\\"" ) zchar[ 4294967296 ]
+calculatedFrom@lengthOf( pack )	`100% of %d` ,char[]body@calculatedFrom( ""// no comment"" )  ,
+@tag( 007) //x
+leftPad
+int8`it's` , repeat pack
+    { repeat char[ 3] body
+,},
+}")).
+Eval vm_compute in ("<<<M1593>>>" ++ check (runes_of_ascii "packet calculatedFrom
+{ @calculatedFrom( ""a\\"" ) zchar[ 4294967296 ]
+calculatedFrom@lengthOf( pack )	`100% of %d` ,char[]body@calculatedFrom( ""// no comment"" )  ,
+@tag( 007) //x
+int8
+leftPad`it's` , repeat pack
+    { repeat char[ 3] body
+},
+}")).
+Eval vm_compute in ("<<<M1451>>>" ++ check (runes_of_ascii "packet calculatedFrom
+{ @calculatedFrom( ""a\\"" ) zchar[ uint8 ]
+calculatedFrom@lengthOf( pack )	`100% of %d` ,char[]body@calculatedFrom( ""// no comment"" )  ,
+@tag( 007) //x
+int8
+leftPad`it's` , repeat pack
+    { repeat char[ 3] body
+,},
+}")).
+Eval vm_compute in ("<<<M575>>>" ++ check (runes_of_ascii "MetaData Logon
+    /// triple
+    { i32 roots
+    `a\` , calculatedFrom
+Pad `// not a comment`,
+char
+    lengthOf`// not a comment`
+// " ++ [27880; 37322]%N ++ runes_of_ascii "
+//x
+,
+    zchar[00	] leftPad,
+//
+// c
+crc len , } options {
+msg_type=true// packet A { u8 x, }
+}")).
+Eval vm_compute in ("<<<M850>>>" ++ check (runes_of_ascii "
+packet leftPad
+{ string stringy	, } // 50% %s
+packet
+u8x {
+repeat
+float64 a1 , @tag(//x
+0123456789
+    ) @rightPad  ( ) A // " ++ [128512]%N ++ runes_of_ascii " emoji
+@lengthOf(matchKey ) // a // b
+`
+` , zchar[ 7 ] Logon @calculatedFrom(
+""x y"" ) ,
+    a1
+,}
+")).
+Eval vm_compute in ("<<<M585>>>" ++ check (runes_of_ascii "packet  o { tag, repeat f64 Header	`tab	here` ,@calculatedFrom( ""// no comment"") // trailing space 
+asx `a\`	, }root packet
+    matchKey { @leftPad( ' ' )@tag( 007) char[]crc
+    /// triple
+    , // trailing space 
+}")).
+Eval vm_compute in ("<<<M4502>>>" ++ check (runes_of_ascii "
+
+  MetaData
+	// " ++ [128512]%N ++ runes_of_ascii " emoji
+    	// packet A { u8 x, }
+  int
+
+    {
+    // @lengthOf(
+    char[  0123456789 
+]	x_y_z
+
+, Header msg_type
+
+    ,
+//x
+  // c
+  	metadata
+	o`say ""hi""` ,
+
+}
+
+    options
+	{ } ")).
+Eval vm_compute in ("<<<M3882>>>" ++ check (runes_of_ascii "  packet 
+Logon {
+    i8 MetaDataX ,
+
+    } 
+options	{
+stringy = ""packet""  u8x
+
+    =
+    ""abc"";
+
+Logon  =false
+;
+
+trueish
+= """ ++ [28040; 24687]%N ++ runes_of_ascii """
+
+u 
+  // `tick` ""quote"" 'q'
+	// a // b
+	=""1""// " ++ [128512]%N ++ runes_of_ascii " emoji
+
+;  }
+")).
+Eval vm_compute in ("<<<M958>>>" ++ check (runes_of_ascii "MetaData tag	{zchar[ 10]
+    Header `it's` /// triple
+,zchar[
+4294967296 ] roots, }
+    /// triple
+    packet x {@tag(
+    42 )uint8 crc ,
+    } MetaData i64_ { zchar[ 1]
+roots	`{ , }` , }")).
+Eval vm_compute in ("<<<M4401>>>" ++ check (runes_of_ascii "packet rootA {
+    i16 a1 @calculatedFrom(""a\""b"") `it's`,
+    @calculatedFrom(""packet"")
+    zchar[7] repeatCount `
+    `,
+    @lengthOf(Foo)
+    int64 A @lengthOf(charz) `two words`,
+}")).
+Eval vm_compute in ("<<<M113>>>" ++ check (runes_of_ascii "  packet
+    // @lengthOf(
+    len{ char[42
+] rootA  @calculatedFrom(""a	b"" ) // c
+,
+    }packet stringy {@leftPad (
+'\x00' ) i16 Packet @lengthOf( zchar
+    )`100% of %d`,	}
+")).
+Eval vm_compute in ("<<<M219>>>" ++ check (runes_of_ascii "options {
+    //	t
+    metadata = """ ++ [233]%N ++ runes_of_ascii "t" ++ [233]%N ++ runes_of_ascii """ ; Packet = '0' trueish
+    = ""`tick`"" calculatedFrom = true ; repeatCount =false} root packet // " ++ [27880; 37322]%N ++ runes_of_ascii "
+u
+    {
+i64_ , }
+/// triple
+")).
+Eval vm_compute in ("<<<M370>>>" ++ check (runes_of_ascii "
+root packet chars{ }
+//	t
+// trailing space 
+options { trueish = true
+    /// triple
+    ; }packet chars{ char[ 7 ]trueish ,
+    int8 string_
+    `two words`
+,}
+")).
+Eval vm_compute in ("<<<M1306>>>" ++ check (runes_of_ascii "
+options {
+o
+= 1 ;	rootA = 4294967296 pack =
+    007 charz // @lengthOf(
+= """ ++ [128512]%N ++ runes_of_ascii """ }
+options
+{
+    repeatCount
+    = ""it's"" ;	charz= 1 ; leftPad  = '\x00' } // " ++ [27880; 37322]%N)).
+Eval vm_compute in ("<<<M2403>>>" ++ check (runes_of_ascii "
+packet MetaDataX
+{
+    @leftPad
+( // a // b
+'0'
+) i8 u @lengthOf(
+MetaDataX
+    ) `say ""hi""` ,	} MetaData BodyLength {
+    asx
+x_y_z `" ++ [233]%N ++ runes_of_ascii "`
+, uint64 u128 , i16
+")).
+Eval vm_compute in ("<<<M1690>>>" ++ check (runes_of_ascii "options { } packet Packet{char[] i64_ ,
+@tag(
+    255 f32 match
+crc as i8i8{""{,}"" : trueish """" : Pad , ""a\\"" :
+Foo ,
+    1 :packetx
+, """ ++ [128512]%N ++ runes_of_ascii """ : trueish , } , }")).
+Eval vm_compute in ("<<<M1710>>>" ++ check (runes_of_ascii "options { } packet Packet{char[] i64_ ,
+@tag(
+    255) match
+crc as packet{""{,}"" : trueish """" : Pad , ""a\\"" :
+Foo ,
+    1 :packetx
+, """ ++ [128512]%N ++ runes_of_ascii """ : trueish , } , }")).
+Eval vm_compute in ("<<<M4367>>>" ++ check (runes_of_ascii "
+packet uint8x	{	// " ++ [128512]%N ++ runes_of_ascii " emoji
+	int16 
+f32a
+    ,
+	}options{ 
+chars =
+
+""`tick`""
+
+    ;
+trueish 
+= // a // b
+  	int64
+
+    Pad =	// 50% %s
+
+""\n""
+    ; 
+}
+")).
+Eval vm_compute in ("<<<M1657>>>" ++ check (runes_of_ascii "options { } packet Packet char[] i64_ ,
+@tag(
+    255) match
+crc as i8i8{""{,}"" : trueish """" : Pad , ""a\\"" :
+Foo ,
+    1 :packetx
+, """ ++ [128512]%N ++ runes_of_ascii """ : trueish , } , }")).
+Eval vm_compute in ("<<<M1809>>>" ++ check (runes_of_ascii "options { } packet Packet{char[] i64_ ,
+@tag(
+    255) match
+crc as i8i8{""{,}"" : trueish """" : Pad , ""a\\"" :
+Foo ,
+    1 :packetx
+, """ ++ [128512]%N ++ runes_of_ascii """ : trueish } , , }")).
+Eval vm_compute in ("<<<M1822>>>" ++ check (runes_of_ascii "options { } packet Packet{char[] i64_ ,
+@tag(
+    255) match
+crc as i8i8{""{,}"" : trueish """" : Pad , ""a\\"" :
+Foo ,
+    1 :packetx
+, """ ++ [128512]%N ++ runes_of_ascii """ : trueish , } , ")).
+Eval vm_compute in ("<<<M1665>>>" ++ check (runes_of_ascii "options { } packet Packet{i64 i64_ ,
+@tag(
+    255) match
+crc as i8i8{""{,}"" : trueish """" : Pad , ""a\\"" :
+Foo ,
+    1 :packetx
+, """ ++ [128512]%N ++ runes_of_ascii """ : trueish , } , }")).
+Eval vm_compute in ("<<<M3776>>>" ++ check (runes_of_ascii "
+packet
+    A{ match
+
+    k 
+as
+n { [	""a""
+    ,
+    22
+,
+	""c c"",  4 ,	""e""
+    ,
+
+66
+,  ""g""
+,  8 
+,  ""i""
+
+    , 10 ]  :
+	B ,
+2
+    :	C
+} ,
+    }")).
+Eval vm_compute in ("<<<M4472>>>" ++ check (runes_of_ascii "
+
+  options
+{  
+      // a // b
+
+  //x
+
+  o
+
+    =
+    ""a\""b"" ;
+
+metadata= 
+char[
+    007 ] ;  
+      // trailing space 
+
+	Pad
+
+    = ""\" ++ [233]%N ++ runes_of_ascii """ }
+")).
+Eval vm_compute in ("<<<M3>>>" ++ check (runes_of_ascii "
+packet	Header	{i16 matchKey , @calculatedFrom(""\n"") charz // @lengthOf(
+calculatedFrom `line1
+line2` ,	}
+packet crc  {calculatedFrom , }
+")).
+Eval vm_compute in ("<<<M3742>>>" ++ check (runes_of_ascii "packet A {
     match k as n {
-        [1, 22] : B,
+        [
+            1, 22, 007, 4, 5,
+            66, 7, 8, 9, 10
+        ] : B,
         2 : C,
     },
 }")).
-Eval vm_compute in ("<<<M1709>>>" ++ check (runes_of_ascii "// c
-MetaData _x {
-    zchar[4294967296] lengthOf `// not a comment`,
-}")).
-Eval vm_compute in ("<<<M1372>>>" ++ check (runes_of_ascii "root packet P {
+Eval vm_compute in ("<<<M827>>>" ++ check (runes_of_ascii "root packet Logon {
+u16 Foo ,
+// c
+//
+@rightPad	()
+@lengthOf(
+    // packet A { u8 x, }
+    Packet)@lengthOf( Logon ) rootA,Z9_, }
+")).
+Eval vm_compute in ("<<<M163>>>" ++ check (runes_of_ascii "packet a1 {//x
+} root  packet a1  {
+    repeat Logon	,string_ //
+{u16 A `tab	here` ,
+repeat string uint8x ,string
+u128,
+} , }")).
+Eval vm_compute in ("<<<M3273>>>" ++ check (runes_of_ascii "MetaData metadata { } MetaData rootA
+// c
+{ i8 i64_ , roots options1 `a\` , lengthOf Header , Z9_ Foo , int16 BodyLength , }")).
+Eval vm_compute in ("<<<M3305>>>" ++ check (runes_of_ascii "MetaData metadata { } MetaData rootA { i8 i64_ , roots options1 `a\` , lengthOf Header , Z9_ Foo , int16 BodyLength
+// c
+, }")).
+Eval vm_compute in ("<<<M1830>>>" ++ check (runes_of_ascii "options { } packet Packet{char[] i64_ ,
+@tag(
+    255) match
+crc as i8i8{""{,}"" : trueish """" : Pad , ""a\\"" :
+Foo ,
+  ")).
+Eval vm_compute in ("<<<M480>>>" ++ check (runes_of_ascii "packet As{ @calculatedFrom(
+""\" ++ [233]%N ++ runes_of_ascii """ )
+@lengthOf( leftPad) Pad @calculatedFrom(
+    ""packet""), } // packet A { u8 x, }")).
+Eval vm_compute in ("<<<M789>>>" ++ check (runes_of_ascii "MetaData
+a1
+{f32 charz `` ,	msg_type
+x_y_z , leftPad
+    msg_type ,uint8x  leftPad ,string
+    falsey ,  }
+")).
+Eval vm_compute in ("<<<M3344>>>" ++ check (runes_of_ascii "MetaData float { uint8 BodyLength , } MetaData charz { float32 trueish `a\` , // c
+i16 metadata `say ""hi""` , }")).
+Eval vm_compute in ("<<<M1195>>>" ++ check (runes_of_ascii "options
+    { Header
+= 7 ; f32a
+=
+    ""x y""  options1
+= false ; }
+    packet Packet { } // trailing space ")).
+Eval vm_compute in ("<<<M3470>>>" ++ check (runes_of_ascii "options {
+    LittleEndian = true;
+}
+root packet P {
     u16 a,
-    u32 Sum @calculatedFrom(""CR\
-C32""),
+    u32 Sum @calculatedFrom(""CRC32""),
 }
 ")).
-Eval vm_compute in ("<<<M780>>>" ++ check (runes_of_ascii "packet A {
+Eval vm_compute in ("<<<M1482>>>" ++ check (runes_of_ascii "packet calculatedFrom
+{ @calculatedFrom( ""a\\"" ) zchar[ 4294967296 ]
+calculatedFrom@lengthOf( pack )")).
+Eval vm_compute in ("<<<M3678>>>" ++ check (runes_of_ascii "
+
+  packet
+A 
+{ 
+match
+	k
+as n { [ ""a"",
+	""bb"" ,
+
+    007  ]
+	: 
+B
+
+    , 2
+
+    :C
+} ,
+	}
+")).
+Eval vm_compute in ("<<<M913>>>" ++ check (runes_of_ascii "packet int {
+char[1
+] metadata @lengthOf( // c
+MetaDataX)	`tab	here` , repeat body msg_type, }")).
+Eval vm_compute in ("<<<M2098>>>" ++ check (runes_of_ascii "packet// packet A { u8 x, }
+repeatCount	{// packet A { u8 x, }
+@leftPad ( '\x00'
+) repeat u8x")).
+Eval vm_compute in ("<<<M1275>>>" ++ check (runes_of_ascii "packet len// @lengthOf(
+{float32 // a // b
+uint8x	, @tag(1 ) char[] Z9_ `line1
+line2` , }
+")).
+Eval vm_compute in ("<<<M2280>>>" ++ check (runes_of_ascii "MetaData _x {string x ""`// not a comment` , string
+i64_ // trailing space 
+`a\` ,
+    }
+")).
+Eval vm_compute in ("<<<M2261>>>" ++ check (runes_of_ascii "MetaData _x {string x `// not a comment` , string
+i64_ // trailing space 
+`a\` }
+    ,
+")).
+Eval vm_compute in ("<<<M4082>>>" ++ check (runes_of_ascii "MetaData options1 {
+    len chars `crlf
+        line`,
+    charz Logon `
+        `,
+}")).
+Eval vm_compute in ("<<<M4384>>>" ++ check (runes_of_ascii "packet A {
+    B b `tab
+    	x`,
+    B `tab
+    	x`,
+    repeat B bs `tab
+    	x`,
+}")).
+Eval vm_compute in ("<<<M2923>>>" ++ check (runes_of_ascii "packet A {
   match k as n {
-    [""a"", ""bb""] : B
+    [""a"", ""bb"", ""c c"", ""d"", ""e""] : B
     2 : C
   },
 }")).
-Eval vm_compute in ("<<<M774>>>" ++ check (runes_of_ascii "packet A {
+Eval vm_compute in ("<<<M396>>>" ++ check (runes_of_ascii "options
+    { stringy=
+    ' 'a1  = ""a	b"";
+    crc= 3
+    ; } packet i8i8 {
+}
+")).
+Eval vm_compute in ("<<<M2909>>>" ++ check (runes_of_ascii "packet A {
   match k as n {
-    [""a""] : B,
+    [""a"", ""bb"", ""c c"", ""d""] : B,
     2 : C
   },
 }")).
-Eval vm_compute in ("<<<M1949>>>" ++ check (runes_of_ascii "MetaData trueish {
-    char[] chars,
-    char[] int,
+Eval vm_compute in ("<<<M3377>>>" ++ check (runes_of_ascii "MetaData _x { f64 charz `tab	here` ,
+// c
+} options { BodyLength = """ ++ [233]%N ++ runes_of_ascii "t" ++ [233]%N ++ runes_of_ascii """ ; }")).
+Eval vm_compute in ("<<<M2237>>>" ++ check (runes_of_ascii "MetaData _x {string x true , string
+i64_ // trailing space 
+`a\` ,
+    }
+")).
+Eval vm_compute in ("<<<M2073>>>" ++ check (runes_of_ascii "packet// packet A { u8 x, }
+repeatCount	{// packet A { u8 x, }
+@leftPad")).
+Eval vm_compute in ("<<<M518>>>" ++ check (runes_of_ascii "packet Logon {
+//
+// `tick` ""quote"" 'q'
+int	`100% of %d`
+,
+    } 	 ")).
+Eval vm_compute in ("<<<M3423>>>" ++ check (runes_of_ascii "packet o { @tag( 4294967296 ) options1 @lengthOf( u8x ) `" ++ [233]%N ++ runes_of_ascii "`
+// c
+, }")).
+Eval vm_compute in ("<<<M2838>>>" ++ check (runes_of_ascii "char[ `u8 x,` ( i16 ; [ match '\x00' root false char[] char[ @tag(")).
+Eval vm_compute in ("<<<M407>>>" ++ check (runes_of_ascii "
+packet charz { }MetaData body{
+    // trailing space 
+    } 	 ")).
+Eval vm_compute in ("<<<M3046>>>" ++ check (runes_of_ascii "MetaData M {
+    u8 x `a
+    b
+  c`,
+    T t `a
+    b
+  c`,
 }")).
-Eval vm_compute in ("<<<M1764>>>" ++ check (runes_of_ascii "packet o {
-    char[0123456789] asx `doc`,
+Eval vm_compute in ("<<<M1309>>>" ++ check (runes_of_ascii "packet a1 {
+// packet A { u8 x, }
+// packet A { u8 x, }
+}
+")).
+Eval vm_compute in ("<<<M3793>>>" ++ check (runes_of_ascii "
+options
+
+{
+
+    _x
+=
+
+false }root packet  pack  {}
+")).
+Eval vm_compute in ("<<<M1161>>>" ++ check (runes_of_ascii "packet i8i8{ @leftPad ( '\x00' )
+trueish packetx ,
+}
+")).
+Eval vm_compute in ("<<<M2358>>>" ++ check (runes_of_ascii "
+packet MetaDataX
+{
+    @leftPad
+( // a // b
+'0'
+)")).
+Eval vm_compute in ("<<<M2337>>>" ++ check (runes_of_ascii "
+MetaData Pad{
+u32 r\ootA `line1
+line2` ,
+    }
+")).
+Eval vm_compute in ("<<<M4222>>>" ++ check (runes_of_ascii "MetaData Pad {
+    string uint8x,
+    int8 As,
 }")).
-Eval vm_compute in ("<<<M1110>>>" ++ check (runes_of_ascii "MetaData zchar { zchar[ // c
-3 ] Pad , }")).
-Eval vm_compute in ("<<<M934>>>" ++ check (runes_of_ascii "packet A {
+Eval vm_compute in ("<<<M2293>>>" ++ check (runes_of_ascii "
+MetaData {
+u32 rootA `line1
+line2` ,
+    }
+")).
+Eval vm_compute in ("<<<M2581>>>" ++ check (runes_of_ascii "packet A { repeat match k as n { 1 : B }, }")).
+Eval vm_compute in ("<<<M3047>>>" ++ check (runes_of_ascii "root packet A {
     u8 x `a
     b
   c`,
 }")).
-Eval vm_compute in ("<<<M1373>>>" ++ check (runes_of_ascii "root packet P {
-    string s,
-}
-")).
-Eval vm_compute in ("<<<M1017>>>" ++ check (runes_of_ascii "packet A {
- u8 x `d" ++ [8233]%N ++ runes_of_ascii "`, // c" ++ [8233]%N ++ runes_of_ascii "
-}")).
-Eval vm_compute in ("<<<M928>>>" ++ check (runes_of_ascii "packet A {
-    u8 x `
-`,
-}")).
-Eval vm_compute in ("<<<M1298>>>" ++ check (runes_of_ascii "packet lengthOf // c
-{ }")).
-Eval vm_compute in ("<<<M405>>>" ++ check (runes_of_ascii "options
-{
-matchKey")).
-Eval vm_compute in ("<<<M1025>>>" ++ check (runes_of_ascii "packet A {
-}
-// c" ++ [8287]%N)).
-Eval vm_compute in ("<<<M1023>>>" ++ check (runes_of_ascii "packet A {
-}// c" ++ [8287]%N)).
-Eval vm_compute in ("<<<M731>>>" ++ check (runes_of_ascii "// a
-// b
-")).
-Eval vm_compute in ("<<<M50>>>" ++ check (runes_of_ascii "//
+Eval vm_compute in ("<<<M3245>>>" ++ check (runes_of_ascii "MetaData zchar { zchar[ 3 ] Pad // c
+, }")).
+Eval vm_compute in ("<<<M4527>>>" ++ check (runes_of_ascii "
 
+  packet
+BodyLength {} 
+      //x
 ")).
+Eval vm_compute in ("<<<M3042>>>" ++ check (runes_of_ascii "packet A {
+    u8 x `a
+    b
+  c`,
+}")).
+Eval vm_compute in ("<<<M2414>>>" ++ check (runes_of_ascii "
+packet MetaDataX
+{
+    @leftPad
+(")).
+Eval vm_compute in ("<<<M2864>>>" ++ check (runes_of_ascii "	" ++ [65533; 65533]%N ++ runes_of_ascii "G3" ++ [65533; 21]%N ++ runes_of_ascii "3" ++ [65533]%N ++ runes_of_ascii "Z" ++ [65533]%N ++ runes_of_ascii "7" ++ [65533]%N ++ runes_of_ascii "x" ++ [65533]%N ++ runes_of_ascii "M" ++ [65533]%N ++ runes_of_ascii "N" ++ [6; 65533; 24]%N ++ runes_of_ascii "}O" ++ [65533; 1758]%N ++ runes_of_ascii "WSAY" ++ [65533; 41158; 65533]%N ++ runes_of_ascii "f")).
+Eval vm_compute in ("<<<M3083>>>" ++ check (runes_of_ascii "root packet A {
+    u8 x `%`,
+}")).
+Eval vm_compute in ("<<<M2713>>>" ++ check ([65533]%N ++ runes_of_ascii "[" ++ [3; 65533]%N ++ runes_of_ascii "29" ++ [5; 6]%N ++ runes_of_ascii "<" ++ [65533]%N ++ runes_of_ascii "F>" ++ [6]%N ++ runes_of_ascii "r " ++ [65533]%N ++ runes_of_ascii "C" ++ [65533; 65533; 0; 65533]%N ++ runes_of_ascii "2N" ++ [65533; 65533]%N ++ runes_of_ascii "#" ++ [65533]%N ++ runes_of_ascii "Mn")).
+Eval vm_compute in ("<<<M2643>>>" ++ check (runes_of_ascii "packet A { @leftPad u8 x, }")).
+Eval vm_compute in ("<<<M4227>>>" ++ check (runes_of_ascii "
+packet A
+	{
+}
+    // c" ++ [65279]%N ++ runes_of_ascii "
+")).
+Eval vm_compute in ("<<<M2616>>>" ++ check (runes_of_ascii "packet A { B { u8 x, } }")).
+Eval vm_compute in ("<<<M3707>>>" ++ check (runes_of_ascii "
+packet A{ } // c" ++ [8287]%N ++ runes_of_ascii "
+ 
+")).
+Eval vm_compute in ("<<<M2857>>>" ++ check (runes_of_ascii "{YTSziCQTy+wy_axdil~")).
+Eval vm_compute in ("<<<M3679>>>" ++ check (runes_of_ascii "// trailing space 
+")).
+Eval vm_compute in ("<<<M3155>>>" ++ check (runes_of_ascii "// c" ++ [8287]%N ++ runes_of_ascii "
+packet A {
+}")).
+Eval vm_compute in ("<<<M2675>>>" ++ check (runes_of_ascii "options { a = 1 }")).
+Eval vm_compute in ("<<<M2660>>>" ++ check (runes_of_ascii "root options { }")).
+Eval vm_compute in ("<<<M2307>>>" ++ check (runes_of_ascii "
+MetaData Pad{")).
+Eval vm_compute in ("<<<M2761>>>" ++ check (runes_of_ascii "AB;Mm{?.U,^`")).
+Eval vm_compute in ("<<<M1647>>>" ++ check (runes_of_ascii "options {")).
+Eval vm_compute in ("<<<M2454>>>" ++ check (runes_of_ascii "zchar [")).
+Eval vm_compute in ("<<<M2534>>>" ++ check (runes_of_ascii """a\b""")).
+Eval vm_compute in ("<<<M3113>>>" ++ check (runes_of_ascii "// c" ++ [160]%N)).
+Eval vm_compute in ("<<<M2546>>>" ++ check (runes_of_ascii "0x10")).
+Eval vm_compute in ("<<<M2549>>>" ++ check (runes_of_ascii "1.5")).
+Eval vm_compute in ("<<<M2567>>>" ++ check (runes_of_ascii "	a")).
+Eval vm_compute in ("<<<M2847>>>" ++ check (runes_of_ascii ";")).
